@@ -3,32 +3,41 @@
   D1  the reverse rules can run: link integrity (arity, unpack width, attributes) over the cones of
       nonlinear_solve / nonlinear_solve_with_state, their _f/_b rules and the inverse helpers;
   D2  jax.custom_vjp contract of each decorated function: defvjp(f, b) exists; f returns
-      (out, residuals); b takes (nondiff..., residuals, cotangent); residuals are unpacked with the
-      width and the roles they were packed with; b returns one cotangent per differentiable argument;
-      the objective's parameters are restored from the residuals before any Hessian / VJP use;
-  D3  parameter-slot tables agree: Objective's jvp/vjp closures, param_index_update, the Params tuple
-      returned by the reverse rule, and the vjp wrappers in MechanicsInverse;
+      (out, residuals) with out = the primal applied to f's own arguments; b takes (nondiff..., residuals, cotangent);
+      what b unpacks from the residuals plays the role it was packed with (the solution is the linearisation point,
+      the saved arguments are the parameters); b returns one cotangent per differentiable argument;
+      the objective's parameters are restored to the parameters of the forward solve before any Hessian / VJP use;
+  D3  parameter-slot tables agree: Objective's jvp/vjp closures and public methods, param_index_update, the cotangent
+      structure returned by the reverse rule, and the vjp wrappers in MechanicsInverse;
   D4  adjoint sign: the adjoint system is solved as the minimiser of v.z + 1/2 z.H z (first CG
       direction -precond(v)), so lam = -H^-1 v, and lam^T dg/dp is returned unnegated;
-  D5  the adjoint function space is built exactly like the ordinary one (modulo mesh.coords -> coords).
+  D5  the adjoint function space equals the ordinary one built on the moved mesh.
 Not decided: numerical equality with a dense reference.
+
+How it is decided (rules/C07_sym.py): the functions are *interpreted on symbols* -- the forward rule, the primal (down to the call
+of the minimiser) and the backward rule of every custom_vjp function, Objective's constructor and methods, param_index_update, the
+MechanicsInverse factories, both function-space constructors.  Verdicts are read off the resulting values (terms), never off the
+spelling of the code: local names, temporaries, extracted helpers, lambda/def, decorators, keyword arguments, unpacking styles,
+statement order, swapped branches with negated tests and loops over constant ranges are executed away.
 """
 from __future__ import annotations
 
 import ast
 import re
 
-from optilint.model import FuncVal, ExtVal, walk_local, norm_src, dotted
-from optilint.cfg import cfg_of
+from optilint.model import FuncVal, ExtVal
 from optilint.core import Incomplete
-from .common import Unifier, link_cone, calls_in, actual, src, expand, const_value
+from .common import link_cone, src, const_value
+from . import C07_sym as S
 
 LEVEL = "other"
-RULE_TEXT = ("obligations = (scope in cone x link-integrity) + (custom_vjp function x contract clause) + "
-             "(parameter slot x table agreement) + adjoint sign + sibling constructor comparison")
-EXPLANATION = ("Static analysis of optimism/inverse/*.py and optimism/Objective.py: link integrity of the reverse-rule "
-               "cones, the custom_vjp packing/unpacking contract, slot-index agreement of the parameter tables, the "
-               "sign convention of the adjoint solve, and sibling agreement of the adjoint function-space constructor. "
+RULE_TEXT = ("obligations = (scope in cone x link-integrity) + (custom_vjp function x contract clause, decided on the symbolic value of the "
+             "forward / backward rule) + (parameter slot x table agreement) + adjoint sign + (mode x function-space field) agreement of the "
+             "adjoint constructor with the ordinary one on the moved mesh")
+EXPLANATION = ("Static analysis of optimism/inverse/*.py and optimism/Objective.py by symbolic interpretation of the source (nothing is "
+               "imported or executed): link integrity of the reverse-rule cones, the custom_vjp packing/unpacking contract by roles of the "
+               "values, slot agreement of the parameter tables, the sign convention of the adjoint solve, and equality of the adjoint "
+               "function space with the ordinary constructor applied to the moved mesh. "
                "Numerical agreement with dense implicit-function-theorem derivatives is not decided.")
 
 NS = "optimism.inverse.NonlinearSolve"
@@ -36,20 +45,184 @@ OBJ = "optimism.Objective"
 MI = "optimism.inverse.MechanicsInverse"
 AFS = "optimism.inverse.AdjointFunctionSpace"
 ES = "optimism.EquationSolver"
+FS = "optimism.FunctionSpace"
+
+SOLVER = f"{ES}:solve_trust_region_minimization"
+STOP = {SOLVER}
+
+
+def _g(fn):
+    """rule function whose interpreter failures (construct not interpretable, path budget) mean `undecided`, never a crash of the check"""
+    def wrapped(*a, **kw):
+        try:
+            return fn(*a, **kw)
+        except (S.EvalError, S.Crash, S.Raised, RecursionError) as ex:
+            raise Incomplete(f"{fn.__name__}: the code cannot be interpreted symbolically ({type(ex).__name__}: {str(ex)[:120]})")
+    wrapped.__name__ = getattr(fn, "__name__", "rule")
+    return wrapped
 
 
 def run(ctx):
     for m in (NS, OBJ, MI, AFS, ES):
         ctx.need_module(m)
     ctx.guard(d1, ctx)
-    ctx.guard(d2, ctx)
-    ctx.guard(d3, ctx)
-    ctx.guard(d4, ctx)
-    ctx.guard(d5, ctx)
+    ctx.guard(_g(d2), ctx)
+    ctx.guard(_g(d3), ctx)
+    ctx.guard(_g(d4), ctx)
+    ctx.guard(_g(d5), ctx)
     ctx.trust("jax.custom_vjp protocol: fwd returns (out, residuals); bwd(nondiff..., residuals, cotangent) returns a tuple "
               "with one entry per differentiable primal argument")
     ctx.trust("preconditioned CG started at z=0 with first direction -M r minimises r.z + 1/2 z.H z, i.e. z = -H^-1 r")
+    ctx.trust("the objective handed to nonlinear_solve / nonlinear_solve_with_state is an optimism.Objective.Objective whose derivative "
+              "operators are not overridden; functions that are not interpreted (minimiser, warm start, preconditioner) do not "
+              "reassign its parameters")
     ctx.assume("Hessian at the solution is non-singular (property text)")
+
+
+# ------------------------------------------------------------------ shared: interpreter set-up
+
+def _straight_line(sc):
+    """no loop / try / with in the function's own body: a helper, not an algorithm"""
+    key = "_c07_straight"
+    if not hasattr(sc, key):
+        from optilint.model import walk_local
+        ok = not any(isinstance(n, (ast.For, ast.While, ast.AsyncFor, ast.Try, ast.With, ast.AsyncWith)) or type(n).__name__ == "TryStar"
+                     for n in walk_local(sc.node))
+        setattr(sc, key, ok)
+    return getattr(sc, key)
+
+
+def _inline(sc):
+    """Interpretation policy.  Functions of the modules the property is about (optimism.inverse.*, optimism.Objective, the ordinary
+    function-space constructor's module) are always interpreted; any other function of the library is interpreted when it is a
+    straight-line helper (no loop / try / with), so that moving code into a helper -- in whatever module -- changes nothing.
+    Algorithms (minimisers, linear solvers, warm start) are opaque applications.  A body the interpreter cannot follow makes that
+    call an opaque application as well, with heap and decisions rolled back.  The adjoint CG solver is opaque on purpose: its call
+    is the event the sign rule looks at."""
+    if sc.qualname in STOP:
+        return False
+    mn = sc.module.name
+    if mn.startswith("optimism.inverse.") or mn in (OBJ, FS):
+        return True
+    return _straight_line(sc)
+
+
+def _interp(ctx, plan=(), duck=None, stubs=None, types=None):
+    I = S.Interp(ctx.repo, _inline, plan, touch=ctx.touch)
+    if duck:
+        I.duck = dict(duck)
+    if stubs:
+        I.stubs = dict(stubs)
+    if types:
+        I.sym_types = dict(types)
+    return I
+
+
+def _match(pat, term, holes, b):
+    """first-order matching of canonical keys: `holes` are canonical symbols of the pattern"""
+    if pat in holes:
+        if pat in b:
+            return b[pat] == term
+        b[pat] = term
+        return True
+    if isinstance(pat, tuple) and isinstance(term, tuple) and len(pat) == len(term):
+        return all(_match(x, y, holes, b) for x, y in zip(pat, term))
+    return pat == term
+
+
+def _strip_sign(c):
+    """(sign, core) of a canonical term: unary minus and multiplication by a negative constant are peeled off"""
+    sign = 1
+    while True:
+        if isinstance(c, tuple) and c and c[0] == "un" and c[1] == ("c", "-"):
+            sign, c = -sign, c[2]
+            continue
+        if isinstance(c, tuple) and c and c[0] == "bin" and c[1] == ("c", "*"):
+            a, b = c[2], c[3]
+            if a[0] == "c" and isinstance(a[1], (int, float)) and not isinstance(a[1], bool) and a[1] in (-1, -1.0):
+                sign, c = -sign, b
+                continue
+            if b[0] == "c" and isinstance(b[1], (int, float)) and not isinstance(b[1], bool) and b[1] in (-1, -1.0):
+                sign, c = -sign, a
+                continue
+        return sign, c
+
+
+def _is_zero(c):
+    """True: certainly zero; False: certainly a non-zero quantity of the analysis; None: unknown"""
+    if not isinstance(c, tuple) or not c:
+        return None
+    if c[0] == "c":
+        if c[1] is None:
+            return True           # jax reads a None cotangent as zero
+        return (c[1] == 0 and not isinstance(c[1], bool)) if isinstance(c[1], (int, float)) else None
+    if c[0] == "app" and c[1][0] == "ext":
+        last = c[1][1].split(".")[-1]
+        if last in ("zeros_like", "zeros"):
+            return True
+        if last in ("tree_map", "tree_multimap") and len(c[2]) >= 2 and c[2][1][0] == "ext" and c[2][1][1].split(".")[-1] == "zeros_like":
+            return True
+        if last in ("full_like", "full") and len(c[2]) >= 3:
+            return _is_zero(c[2][2])
+        if last in ("ones_like", "ones"):
+            return False
+        if last in ("array", "asarray", "copy") and len(c[2]) == 2:
+            return _is_zero(c[2][1])
+        return None
+    if c[0] == "un" and c[1] == ("c", "-"):
+        return _is_zero(c[2])
+    if c[0] == "bin":
+        opn, a, b = c[1][1], c[2], c[3]
+        za, zb = _is_zero(a), _is_zero(b)
+        if opn in ("*", "@"):
+            if za or zb:
+                return True
+            if za is False and zb is False:
+                return False
+            return None
+        if opn == "/":
+            return True if za else (False if za is False else None)
+        if opn in ("+", "-"):
+            if za and zb:
+                return True
+            if opn == "-" and a == b:
+                return True
+            if (za and zb is False) or (zb and za is False):
+                return False
+            return None
+    if c[0] in ("sym", "vjp", "jvp"):
+        return False
+    if c[0] == "item":
+        z = _is_zero(c[1])
+        return True if z else (False if c[1][0] == "sym" else None)
+    return None
+
+
+class _Agg:
+    """one obligation per construct: PROVED when every path agrees, REFUTED with the first counter-example otherwise"""
+
+    def __init__(self, ctx):
+        self.ctx = ctx
+        self.items = {}
+        self.order = []
+
+    def add(self, rule, construct, ok, scope, node, detail, bad_detail=None):
+        k = (rule, construct)
+        if k not in self.items:
+            self.items[k] = [ok, scope, node, detail, bad_detail]
+            self.order.append(k)
+            return
+        cur = self.items[k]
+        # REFUTED dominates UNDECIDED dominates PROVED
+        rank = lambda v: 2 if v is False else (1 if v is None else 0)
+        if rank(ok) > rank(cur[0]):
+            self.items[k] = [ok, scope, node, detail, bad_detail]
+
+    def flush(self):
+        for (rule, construct) in self.order:
+            ok, scope, node, detail, bad = self.items[(rule, construct)]
+            self.ctx.decide(rule, ok, scope, node, construct=construct, detail=detail, bad_detail=bad or detail)
+        self.items, self.order = {}, []
 
 
 # ------------------------------------------------------------------ D1
@@ -72,173 +245,50 @@ def d1(ctx):
     link_cone(ctx, "D1/T10-link", roots, "reverse rules and inverse helpers", stop=stop, min_scopes=40)
 
 
-# ------------------------------------------------------------------ D2
+# ------------------------------------------------------------------ custom_vjp functions and their symbolic model
 
 def _custom_vjp_functions(ctx):
+    """[(primal scope, nondiff_argnums)] of NonlinearSolve: decorated with custom_vjp / partial(custom_vjp, nondiff_argnums=...), or
+    rebound at module level as `f = custom_vjp(f, nondiff_argnums=...)`."""
     m = ctx.need_module(NS)
+
+    def nondiff_of(call):
+        nd = ()
+        if isinstance(call, ast.Call):
+            for k in call.keywords:
+                if k.arg == "nondiff_argnums":
+                    v = k.value
+                    if isinstance(v, (ast.Tuple, ast.List)):
+                        nd = tuple(const_value(e) for e in v.elts)
+                    elif const_value(v) is not None:
+                        nd = (const_value(v),)
+                    else:
+                        return None
+        return nd
+
+    def is_cvjp(e, scope):
+        vals = ctx.repo.resolve(e, scope)
+        return any(isinstance(v, ExtVal) and v.name == "jax.custom_vjp" for v in vals)
+
     out = []
     for c in m.scope.children:
         if c.kind != "function":
             continue
         nondiff = None
         for d in c.node.decorator_list:
-            vals = ctx.repo.resolve(d, m.scope)
-            if any(isinstance(v, ExtVal) and v.name == "jax.custom_vjp" for v in vals):
-                nondiff = ()
-                if isinstance(d, ast.Call):
-                    for k in d.keywords:
-                        if k.arg == "nondiff_argnums" and isinstance(k.value, ast.Tuple):
-                            nondiff = tuple(const_value(e) for e in k.value.elts)
+            if is_cvjp(d, m.scope) or (isinstance(d, ast.Call) and (is_cvjp(d.func, m.scope) or any(is_cvjp(a, m.scope) for a in d.args))):
+                nondiff = nondiff_of(d)
+                if nondiff is None:
+                    raise Incomplete(f"nondiff_argnums of {c.name} is not a literal")
+        if nondiff is None:
+            for st in m.tree.body:
+                if isinstance(st, ast.Assign) and len(st.targets) == 1 and isinstance(st.targets[0], ast.Name) and st.targets[0].id == c.name \
+                        and isinstance(st.value, ast.Call) and is_cvjp(st.value.func, m.scope) and st.value.args \
+                        and isinstance(st.value.args[0], ast.Name) and st.value.args[0].id == c.name:
+                    nondiff = nondiff_of(st.value)
         if nondiff is not None:
-            out.append((c, nondiff))
+            out.append((c, tuple(nondiff)))
     return out
-
-
-def d2(ctx):
-    rule = "D2/T5-custom-vjp-contract"
-    m = ctx.need_module(NS)
-    fns = _custom_vjp_functions(ctx)
-    if len(fns) < 2:
-        raise Incomplete(f"{len(fns)} custom_vjp functions found in inverse.NonlinearSolve (2 on the reference tree)")
-    # defvjp registrations at module level
-    regs = {}
-    for st in m.tree.body:
-        if isinstance(st, ast.Expr) and isinstance(st.value, ast.Call) and isinstance(st.value.func, ast.Attribute) \
-                and st.value.func.attr == "defvjp" and isinstance(st.value.func.value, ast.Name):
-            regs[st.value.func.value.id] = st.value
-    for (prim, nondiff) in fns:
-        reg = regs.get(prim.name)
-        if reg is None or len(reg.args) != 2:
-            ctx.refuted(rule, prim, None, construct=f"{prim.name}:defvjp",
-                        detail=f"{prim.name} is decorated with custom_vjp but no {prim.name}.defvjp(fwd, bwd) registration exists")
-            continue
-        fwd = _resolve_fn(ctx, reg.args[0], m.scope)
-        bwd = _resolve_fn(ctx, reg.args[1], m.scope)
-        if fwd is None or bwd is None:
-            ctx.undecided(rule, prim, reg, construct=f"{prim.name}:defvjp", detail="cannot resolve fwd/bwd functions")
-            continue
-        ctx.touch(fwd)
-        ctx.touch(bwd)
-        pp = prim.params()
-        ndiff = len(pp) - len(nondiff)
-        # fwd signature
-        ctx.decide(rule, fwd.params().__len__() == len(pp), fwd, None, construct=f"{prim.name}:fwd-signature",
-                   detail=f"fwd has {len(fwd.params())} parameters, primal {len(pp)}",
-                   bad_detail=f"forward rule {fwd.name} takes {len(fwd.params())} parameters but the primal takes {len(pp)}")
-        # fwd returns (out, residuals)
-        rets = fwd.returns()
-        ok = len(rets) >= 1 and all(isinstance(r, ast.Tuple) and len(r.elts) == 2 for r in rets)
-        ctx.decide(rule, ok, fwd, rets[0] if rets else None, construct=f"{prim.name}:fwd-returns-pair",
-                   detail="fwd returns (out, residuals)", bad_detail="forward rule does not return a pair (out, residuals)")
-        if not ok:
-            continue
-        res = rets[0].elts[1]
-        outv = rets[0].elts[0]
-        # fwd output must come from calling the primal with fwd's own parameters in order
-        fcfg = cfg_of(fwd)
-        rnode = fcfg.returns()[0]
-        outx = expand(fcfg, rnode, outv)
-        okp = isinstance(outx, ast.Call) and isinstance(outx.func, ast.Name) and outx.func.id == prim.name and \
-            [a.id if isinstance(a, ast.Name) else None for a in outx.args] == fwd.params()
-        ctx.decide(rule, okp, fwd, outv, construct=f"{prim.name}:fwd-calls-primal",
-                   detail=f"out = {src(outx)}", bad_detail=f"forward output `{src(outx)}` is not the primal applied to the forward rule's own arguments in order")
-        # bwd signature: nondiff..., residuals, cotangent
-        bp = bwd.params()
-        ctx.decide(rule, len(bp) == len(nondiff) + 2, bwd, None, construct=f"{prim.name}:bwd-signature",
-                   detail=f"bwd parameters {bp}",
-                   bad_detail=f"backward rule takes {len(bp)} parameters; expected {len(nondiff)} non-differentiable + residuals + cotangent")
-        if len(bp) != len(nondiff) + 2:
-            continue
-        for i, nd in enumerate(nondiff):
-            ctx.decide(rule, bp[i] == pp[nd], bwd, None, construct=f"{prim.name}:bwd-nondiff#{i}",
-                       detail=f"bwd parameter {i} is {bp[i]}, primal nondiff argument {nd} is {pp[nd]}",
-                       bad_detail=f"backward rule parameter {i} `{bp[i]}` does not correspond to non-differentiable primal argument `{pp[nd]}`")
-        rname, vname = bp[-2], bp[-1]
-        # residual packing: roles by position
-        if not isinstance(res, ast.Tuple):
-            ctx.undecided(rule, fwd, res, construct=f"{prim.name}:residual-pack", detail="residuals are not a literal tuple")
-            continue
-        pack_roles = []
-        for e in res.elts:
-            ex = expand(fcfg, rnode, e)
-            if isinstance(ex, ast.Call) and isinstance(ex.func, ast.Name) and ex.func.id == prim.name:
-                pack_roles.append("solution")
-            elif isinstance(ex, ast.Name) and ex.id in fwd.params():
-                pack_roles.append(f"primal-arg#{fwd.params().index(ex.id)}")
-            else:
-                pack_roles.append("other:" + src(ex))
-        # unpack in bwd
-        unpack = None
-        for st in walk_local(bwd.node):
-            if isinstance(st, ast.Assign) and isinstance(st.value, ast.Name) and st.value.id == rname \
-                    and isinstance(st.targets[0], ast.Tuple):
-                unpack = st
-        if unpack is None:
-            ctx.undecided(rule, bwd, None, construct=f"{prim.name}:residual-unpack", detail="no tuple unpack of the residuals found")
-            continue
-        names = [t.id if isinstance(t, ast.Name) else None for t in unpack.targets[0].elts]
-        ctx.decide(rule, len(names) == len(res.elts), bwd, unpack, construct=f"{prim.name}:residual-width",
-                   detail=f"packed {len(res.elts)}, unpacked {len(names)}",
-                   bad_detail=f"residuals packed as {len(res.elts)}-tuple but unpacked into {len(names)} names")
-        if len(names) != len(res.elts):
-            continue
-        # role of each unpacked name in bwd
-        bsrc_calls = list(calls_in(bwd, local=False))
-        for nm, role in zip(names, pack_roles):
-            uses_sol = any(isinstance(c.func, ast.Attribute) and c.func.attr in ("hessian_vec", "vec_jacobian_p0", "vec_jacobian_p1", "vec_jacobian_p2", "vec_jacobian_p4")
-                           and c.args and isinstance(c.args[0], ast.Name) and c.args[0].id == nm for c in bsrc_calls)
-            # parameter role: flows into `<obj>.p = ...`
-            uses_par = False
-            for st in walk_local(bwd.node):
-                if isinstance(st, ast.Assign) and isinstance(st.targets[0], ast.Attribute) and st.targets[0].attr == "p":
-                    if nm in {n.id for n in ast.walk(st.value) if isinstance(n, ast.Name)}:
-                        uses_par = True
-            if role == "solution":
-                ok = uses_sol and not uses_par
-            elif role.startswith("primal-arg#"):
-                ok = uses_par and not uses_sol
-            else:
-                ok = None
-            ctx.decide(rule, ok, bwd, unpack, construct=f"{prim.name}:residual-role:{role}",
-                       detail=f"`{nm}` packed as {role}; used as point={uses_sol}, as parameters={uses_par}",
-                       bad_detail=f"residual packed as {role} is unpacked into `{nm}`, which the backward rule uses as "
-                                  f"{'the linearisation point' if uses_sol else 'the parameters' if uses_par else 'nothing'}")
-        # parameters restored before Hessian / VJP use (T2)
-        bcfg = cfg_of(bwd)
-        objname = bp[0]
-        passign = [n for n in bcfg.nodes if n.kind == "stmt" and isinstance(n.ast, ast.Assign)
-                   and isinstance(n.ast.targets[0], ast.Attribute) and n.ast.targets[0].attr == "p"
-                   and isinstance(n.ast.targets[0].value, ast.Name) and n.ast.targets[0].value.id == objname]
-        users = []
-        for n in bcfg.nodes:
-            if n.ast is None or n.kind not in ("stmt", "cond"):
-                continue
-            for c in ast.walk(n.ast):
-                if isinstance(c, ast.Call) and isinstance(c.func, ast.Attribute) and isinstance(c.func.value, ast.Name) \
-                        and c.func.value.id == objname and (c.func.attr.startswith(("vec_jacobian", "hessian", "jacobian"))):
-                    users.append((n, c))
-        # hessian_vec inside a lambda executes when the CG solver runs: the use site is the solver call
-        for n in bcfg.nodes:
-            if n.kind == "stmt" and n.ast is not None and "solve_trust_region_minimization" in src(n.ast):
-                users.append((n, n.ast))
-        if not users:
-            ctx.undecided(rule, bwd, None, construct=f"{prim.name}:uses", detail="no Hessian/VJP use found in the backward rule")
-        for (n, c) in users:
-            ok = any(bcfg.dominates(a, n) and a is not n for a in passign)
-            ctx.decide(rule, ok, bwd, c, construct=f"{prim.name}:params-restored-before:{src(c)[:50]}",
-                       detail="objective parameters assigned from the residuals before this use",
-                       bad_detail=f"`{objname}.p` is not assigned before `{src(c)[:60]}`; the reverse rule would linearise under stale parameters")
-        for a in passign:
-            names_in_rhs = {x.id for x in ast.walk(a.ast.value) if isinstance(x, ast.Name)}
-            ok = bool(names_in_rhs & set(n for n in names if n))
-            ctx.decide(rule, ok, bwd, a.ast, construct=f"{prim.name}:params-from-residuals",
-                       detail=f"{src(a.ast)}", bad_detail=f"`{src(a.ast)}` does not use the saved forward parameters")
-        # bwd returns one cotangent per differentiable argument
-        for r in bwd.returns():
-            ok = isinstance(r, ast.Tuple) and len(r.elts) == ndiff
-            ctx.decide(rule, ok, bwd, r, construct=f"{prim.name}:bwd-return-width",
-                       detail=f"returns {len(r.elts) if isinstance(r, ast.Tuple) else '?'} cotangents for {ndiff} differentiable arguments",
-                       bad_detail=f"backward rule returns {len(r.elts) if isinstance(r, ast.Tuple) else 'a non-tuple'} but the primal has {ndiff} differentiable arguments")
 
 
 def _resolve_fn(ctx, e, scope):
@@ -248,221 +298,942 @@ def _resolve_fn(ctx, e, scope):
     return None
 
 
+def _registration(ctx, prim):
+    """(fwd scope, bwd scope, node) of `prim.defvjp(fwd, bwd)` at module level (positional or keyword), or None"""
+    m = prim.module
+    for st in ast.walk(m.tree):
+        if isinstance(st, ast.Call) and isinstance(st.func, ast.Attribute) and st.func.attr == "defvjp":
+            tgt = _resolve_fn(ctx, st.func.value, m.scope)
+            if tgt is not prim:
+                continue
+            args = list(st.args)
+            kw = {k.arg: k.value for k in st.keywords}
+            f = args[0] if len(args) > 0 else kw.get("fwd")
+            b = args[1] if len(args) > 1 else kw.get("bwd")
+            if f is None or b is None:
+                return (None, None, st)
+            return (_resolve_fn(ctx, f, m.scope), _resolve_fn(ctx, b, m.scope), st)
+    return None
+
+
+class _VjpModel:
+    """Symbolic model of one custom_vjp triple.  Symbols: nd<i> for the non-differentiable arguments (each may be an Objective),
+    arg<j> for the differentiable ones, `cotangent`.  A symbol is *typed* as a record (see Interp.sym_types) when the code shows its
+    type: a differentiable argument whose cotangent is returned as a record, the initial parameter cell of the objective when the
+    primal stores a record there."""
+
+    def __init__(self, ctx, prim, fwd, bwd, nondiff):
+        self.ctx, self.prim, self.fwd, self.bwd, self.nondiff = ctx, prim, fwd, bwd, nondiff
+        self.pp = prim.params()
+        self.ndiff_idx = [i for i in range(len(self.pp)) if i not in nondiff]
+        self.objcls = ctx.need(f"{OBJ}:Objective")
+        self.types = {}            # symbol name -> (tname, fields, ndefaults)
+        # the parameter cell of an objective holds a parameter record from the start: the constructor argument it is filled from is
+        # typed with the parameter namedtuple of the objective's module (when there is exactly one)
+        try:
+            I, obj, _ = _objective_instance(ctx)
+            cell = obj.attrs.get(_objective_param_attr(ctx, I, obj))
+            nts = _params_class(ctx, I)
+            if isinstance(cell, S.T) and cell.op == "sym" and cell.args[0].startswith("self.init.") and len(nts) == 1:
+                for i in nondiff:
+                    self.types[f"nd{i}.init.{cell.args[0][len('self.init.'):]}"] = (nts[0].name, nts[0].fields, len(nts[0].defaults))
+        except Incomplete:
+            pass
+
+    def duck(self):
+        return {f"nd{i}": self.objcls for i in self.nondiff}
+
+    def arg_values(self, I):
+        return [I.sym(f"nd{i}") if i in self.nondiff else I.sym(f"arg{i}") for i in range(len(self.pp))]
+
+    def mk(self, stubs=None):
+        return lambda plan: _interp(self.ctx, plan, duck=self.duck(), stubs=stubs, types=self.types)
+
+    def run_primal(self):
+        def run(I):
+            f = S.Closure(self.prim, I.module_env(self.prim.module))
+            return I.call_closure(f, self.arg_values(I), {}, force=True)
+        return S.paths(self.mk(), run)
+
+    def primal_stub(self):
+        return {self.prim.qualname: lambda I, f, a, k: I.call_opaque_repo(f, a, k)}
+
+    def run_fwd(self):
+        def run(I):
+            f = S.Closure(self.fwd, I.module_env(self.fwd.module))
+            return I.call_closure(f, self.arg_values(I), {}, force=True)
+        return S.paths(self.mk(self.primal_stub()), run)
+
+    def run_bwd(self, residuals):
+        def run(I):
+            f = S.Closure(self.bwd, I.module_env(self.bwd.module))
+            args = [I.sym(f"nd{i}") for i in self.nondiff] + [residuals, I.sym("cotangent")]
+            return I.call_closure(f, args, {}, force=True)
+        return S.paths(self.mk(self.primal_stub()), run)
+
+    def pretty(self, c, oi=None, pattr=None):
+        """rendering of a canonical key with the analyser's symbols replaced by the names of the primal's parameters"""
+        t = S.show(c)
+        for i, nm in enumerate(self.pp):
+            t = re.sub(rf"\b(nd|arg){i}\b", nm, t)
+        t = re.sub(r"(\w+)\.init\.(\w+)", r"\1.\2@entry", t)
+        return t
+
+
+def _obj_of(I, nondiff):
+    """[(index, Obj)] of the non-differentiable arguments that were used as an Objective on this path"""
+    return [(i, I.duck_obj[f"nd{i}"]) for i in nondiff if f"nd{i}" in I.duck_obj]
+
+
+def _residual_pattern(I, obj, pattr):
+    """canonical residual R(?U, ?P): what Objective.gradient(?U) evaluates to when the parameter cell holds ?P"""
+    U, P = I.sym("?U"), I.sym("?P")
+    saved = obj.attrs.get(pattr)
+    obj.attrs[pattr] = P
+    I.in_canon += 1
+    try:
+        r = I.call(I.getattr(obj, "gradient"), [U], {})
+    except (S.EvalError, S.Crash, S.Raised) as ex:
+        raise Incomplete(f"Objective.gradient cannot be interpreted: {ex}")
+    finally:
+        I.in_canon -= 1
+        obj.attrs[pattr] = saved
+    c = I.canon(r)
+    if not (S.occurs(c, U.c) and S.occurs(c, P.c)):
+        raise Incomplete("Objective.gradient(x) does not depend on both x and the stored parameters")
+    return c, U.c, P.c
+
+
+def _analyse_deriv(c, pattern):
+    """c: canonical vjp / jvp term.  dict describing which derivative of the residual it is, or a string (why it is none)."""
+    pat, U, P = pattern
+    kind = c[0]
+    F, primals = c[1], c[2][1:]
+    if len(primals) != 1:
+        return "differentiates with respect to several primal arguments at once"
+    X = primals[0]
+    if kind == "vjp":
+        other, idx = c[3], c[4][1]
+    else:
+        tang = c[3][1:]
+        other, idx = (tang[0] if len(tang) == 1 else None), 0
+    if not (isinstance(F, tuple) and F and F[0] == "lam" and F[1] == 1):
+        return "the differentiated callable cannot be interpreted"
+    fbody, Z = F[3], F[4][0]
+    b = {}
+    if not _match(pat, fbody, {U, P}, b) or U not in b or P not in b:
+        return "the differentiated function is not the residual"
+    ub, pb = b[U], b[P]
+    info = dict(kind=kind, X=X, other=other, index=idx, Z=Z, U=ub, P=pb, wrt=None)
+    if ub == Z and not S.occurs(pb, Z):
+        info["wrt"] = "x"
+    elif not S.occurs(ub, Z):
+        if pb == Z:
+            info["wrt"] = "p-all"
+        elif pb[0] == "rec":
+            fields = pb[2:]
+            slots = [j for j, f in enumerate(fields) if f == Z]
+            rest = [f for j, f in enumerate(fields) if j not in slots]
+            if len(slots) == 1 and not any(S.occurs(f, Z) for f in rest):
+                info.update(wrt="p", slot=slots[0], fields=fields, tname=pb[1])
+            else:
+                info["wrt"] = "p-mixed"
+        elif S.occurs(pb, Z):
+            info["wrt"] = "p-mixed"
+    return info
+
+
+# ------------------------------------------------------------------ D2 (+ the reverse-rule parts of D3 and D4)
+
+def _vjp_models(ctx):
+    key = "_c07_models"
+    if hasattr(ctx, key):
+        return getattr(ctx, key)
+    fns = _custom_vjp_functions(ctx)
+    setattr(ctx, key, fns)
+    return fns
+
+
+def d2(ctx):
+    fns = _vjp_models(ctx)
+    if len(fns) < 2:
+        raise Incomplete(f"{len(fns)} custom_vjp functions found in inverse.NonlinearSolve (2 on the reference tree)")
+    for (prim, nondiff) in fns:
+        ctx.guard(_g(_reverse_rule), ctx, prim, nondiff, ("D2",))
+
+
+def _reverse_rule(ctx, prim, nondiff, parts):
+    """All obligations about one custom_vjp triple; `parts` selects the rule families that are emitted (D2 / D3 / D4), so that the three
+    rule functions share one analysis."""
+    cache = ctx.__dict__.setdefault("_c07_reverse", {})
+    if prim.qualname not in cache:
+        rec, err = [], None
+        try:
+            _reverse_rule_body(ctx, prim, nondiff, lambda *a: rec.append(a))
+        except Incomplete as e:
+            err = e
+        cache[prim.qualname] = (rec, err)
+    rec, err = cache[prim.qualname]
+    agg = _Agg(ctx)
+    for (part, rule, construct, ok, scope, node, detail, *bad) in rec:
+        if part in parts:
+            agg.add(rule, construct, ok, scope, node, detail, bad[0] if bad else None)
+    agg.flush()
+    if err is not None:
+        raise Incomplete(str(err))
+
+
+def _why(ps):
+    return "; ".join(sorted({f"{p.kind}: {p.info}" for p in ps if p.kind != "return"}))[:220]
+
+
+def _reverse_rule_body(ctx, prim, nondiff, emit):
+    R2, R3, R4 = "D2/T5-custom-vjp-contract", "D3/T5-parameter-slots", "D4/T7-adjoint-sign"
+    name = prim.name
+    reg = _registration(ctx, prim)
+    if reg is None:
+        emit("D2", R2, f"{name}:defvjp", False, prim, None, "",
+             f"{name} is decorated with custom_vjp but no {name}.defvjp(fwd, bwd) registration exists")
+        return
+    fwd, bwd, regnode = reg
+    if fwd is None or bwd is None:
+        emit("D2", R2, f"{name}:defvjp", None, prim, regnode, "cannot resolve the fwd / bwd functions of the registration")
+        return
+    emit("D2", R2, f"{name}:defvjp", True, prim, regnode, f"{name}.defvjp({fwd.name}, {bwd.name})")
+    ctx.touch(fwd)
+    ctx.touch(bwd)
+    pp = prim.params()
+    ndiff = len(pp) - len(nondiff)
+    M = _VjpModel(ctx, prim, fwd, bwd, nondiff)
+    P_ = M.pretty
+
+    # ---- signatures (arity is what jax checks; names are free)
+    nf = len(fwd.params())
+    okf = fwd.n_required() <= len(pp) <= nf
+    emit("D2", R2, f"{name}:fwd-signature", okf, fwd, None,
+         f"fwd has {nf} parameters, primal {len(pp)}", f"forward rule {fwd.name} takes {nf} parameters but the primal takes {len(pp)}")
+    nb = len(bwd.params())
+    okb = (bwd.n_required() <= len(nondiff) + 2 <= nb)
+    emit("D2", R2, f"{name}:bwd-signature", okb, bwd, None, f"bwd takes {nb} parameters: {len(nondiff)} non-differentiable + residuals + cotangent",
+         f"backward rule takes {nb} parameters; expected {len(nondiff)} non-differentiable + residuals + cotangent")
+    if not okb or not okf:
+        return
+
+    # ---- interpretation; repeated while it reveals record types of symbols (cotangent records, parameter cell)
+    st = None
+    for _round in range(4):
+        st = _evaluate(M, ndiff)
+        if st.get("stop") or not st.get("new_types"):
+            break
+        M.types.update(st["new_types"])
+    if st.get("stop"):
+        construct, verdict, scope, detail = st["stop"]
+        emit("D2", R2, f"{name}:{construct}", verdict, scope, None, detail, detail)
+        return
+    fv, good, bps, pgood = st["fv"], st["good"], st["bps"], st["pgood"]
+    emit("D2", R2, f"{name}:fwd-returns-pair", True, fwd, None, "fwd returns (out, residuals)")
+
+    # ---- forward rule: out is the primal applied to the rule's own arguments, in order
+    I0 = good[0].I
+    args0 = M.arg_values(I0)
+    outc = I0.canon(fv[0])
+    pvals = {p.I.canon(p.value) for p in pgood}
+    okout = all(o[:4] == ("app", ("func", prim.qualname), I0.canon(tuple(args0)), ("tuple",)) or o in pvals for o in st["fwd_outs"])
+    emit("D2", R2, f"{name}:fwd-calls-primal", okout, fwd, None, f"out = {P_(outc)[:120]}",
+         f"forward output `{P_(outc)[:160]}` is not the primal applied to the forward rule's own arguments in order (nor the value the primal computes for them)")
+    SOL = outc            # what jax hands out as the solution; the backward rule must linearise there
+    V = ("sym", "cotangent")
+
+    oi, pattr, PF = st["oi"], st["pattr"], st["PF"]
+    emit("D2", R2, f"{name}:primal", True, prim, None, f"the minimiser runs with {pp[oi]}.{pattr} = {P_(PF)[:120]}")
+
+    # which differentiable argument sits where in the parameters
+    where = {}
+    for j in M.ndiff_idx:
+        a = I0.canon(args0[j])
+        if PF == a:
+            where[j] = "all"
+        elif PF[0] == "rec" and a in PF[2:]:
+            where[j] = PF[2:].index(a)
+        elif S.occurs(PF, a):
+            where[j] = "mixed"
+        else:
+            where[j] = None                           # not a parameter: the initial guess
+
+    # ---- backward rule, path by path
+    n_ret = 0
+    for p in bps:
+        I = p.I
+        if p.kind == "crash":
+            unpack = "unpack" in p.info
+            emit("D2", R2, f"{name}:residual-width" if unpack else f"{name}:bwd-executes", False, bwd, None, "",
+                 (f"residuals packed by {fwd.name} as `{P_(I.canon(fv[1]))[:80]}` but the backward rule fails to unpack them: {p.info}" if unpack
+                  else f"the backward rule raises on the values handed over by jax: {p.info}"))
+            continue
+        if p.kind == "raise":
+            continue
+        if p.kind == "error":
+            emit("D2", R2, f"{name}:bwd-executes", None, bwd, None, f"backward rule cannot be interpreted: {p.info}")
+            continue
+        n_ret += 1
+        emit("D2", R2, f"{name}:residual-width", True, bwd, None, "residuals are unpacked with the width they were packed with")
+        emit("D2", R2, f"{name}:bwd-executes", True, bwd, None, "the backward rule runs on (nondiff..., residuals, cotangent)")
+        rv = p.value
+        okw = isinstance(rv, tuple) and len(rv) == ndiff
+        emit("D2", R2, f"{name}:bwd-return-width", okw, bwd, None, f"returns {len(rv) if isinstance(rv, tuple) else '?'} cotangents for {ndiff} differentiable arguments",
+             f"backward rule returns {len(rv) if isinstance(rv, tuple) else 'a non-tuple'} but the primal has {ndiff} differentiable arguments")
+        # the objective of the backward rule is the objective of the primal
+        bobjs = _obj_of(I, nondiff)
+        for pos, i in enumerate(nondiff):
+            if i == oi:
+                ok = [k for k, _ in bobjs] == [oi]
+                emit("D2", R2, f"{name}:bwd-nondiff#{pos}", ok, bwd, None, f"argument {pos} of the backward rule is used as the objective, like primal argument `{pp[i]}`",
+                     f"the backward rule uses its argument(s) {[nondiff.index(k) for k, _ in bobjs]} as the objective; the objective of the primal is non-differentiable argument {pos} `{pp[oi]}`")
+            else:
+                s = ("sym", f"nd{i}")
+                roles = lambda J: {(ev.extra or {}).get("params")[k] for ev in J.events if (ev.extra or {}).get("params")
+                                   for k, a in enumerate(ev.c[2][1:]) if a == s and k < len(ev.extra["params"])}
+                roles_b, roles_p = roles(I), roles(pgood[0].I)
+                # positively wrong only when the backward rule treats this argument as the objective; the callee parameter names it is
+                # handed to are reported, not compared (they belong to other modules and may be renamed there)
+                ok = f"nd{i}" not in I.duck_obj
+                emit("D2", R2, f"{name}:bwd-nondiff#{pos}", ok, bwd, None,
+                     f"argument {pos} is forwarded as {sorted(roles_b) or 'nothing'} (primal: {sorted(roles_p) or 'nothing'})",
+                     f"the backward rule uses its argument {pos} (primal argument `{pp[i]}`) as an objective; the primal hands it on as {sorted(roles_p)}")
+        if len(bobjs) != 1 or bobjs[0][0] != oi:
+            continue
+        obj = bobjs[0][1]
+        pattern = _residual_pattern(I, obj, pattr)
+        stale = ("sym", f"{obj.label}.init.{pattr}")
+
+        def check_point_and_params(tag, info):
+            """shared by the Hessian operator and the parameter VJPs: linearisation point = solution, parameters = forward parameters"""
+            Uc = info["U"] if info["wrt"] != "x" else info["X"]
+            emit("D2", R2, f"{name}:residual-role:solution", True if Uc == SOL else (None if S.occurs(Uc, SOL) else False), bwd, None, "the saved solution is the linearisation point of every derivative",
+                 f"the {tag} is linearised at `{P_(Uc)[:100]}`, not at the solution returned by the primal: the residuals are not unpacked in the roles they were packed with")
+            Pc = info["P"]
+            if info["wrt"] == "p":
+                # parameters with the differentiation variable put back
+                Pc = I.canon_rec(info["tname"], tuple(info["X"] if j == info["slot"] else f for j, f in enumerate(info["fields"])))
+            is_stale = Pc == stale or (Pc[0] == "rec" and all(f == ("item", stale, ("c", j)) for j, f in enumerate(Pc[2:])))
+            emit("D2", R2, f"{name}:params-restored-before:{tag}", not is_stale, bwd, None, "objective parameters assigned from the residuals before this use",
+                 f"`{pp[oi]}.{pattr}` is not assigned before the {tag} is evaluated; the reverse rule would linearise under stale parameters")
+            if not is_stale:
+                okp = _differs(Pc, PF)[0]
+                emit("D2", R2, f"{name}:params-from-residuals", okp, bwd, None, f"{pp[oi]}.{pattr} = the parameters of the forward solve",
+                     f"the {tag} is evaluated with parameters `{P_(Pc)[:140]}`; the forward solve used `{P_(PF)[:140]}`")
+                for j in M.ndiff_idx:
+                    if where[j] is not None:
+                        emit("D2", R2, f"{name}:residual-role:primal-arg#{j}", okp, bwd, None, f"saved argument `{pp[j]}` is used as the parameters it was in the forward solve",
+                             f"saved primal argument `{pp[j]}` does not play the role it had in the forward solve: parameters are `{P_(Pc)[:140]}` instead of `{P_(PF)[:140]}`")
+
+        # ---- the adjoint solve
+        solves = [ev for ev in I.events if ev.c[1] == ("func", SOLVER)]
+        if len(solves) != 1:
+            emit("D4", R4, f"{bwd.name}:adjoint-solve", None, bwd, None, f"{len(solves)} adjoint solves found on a path of the backward rule")
+            emit("D2", R2, f"{name}:uses", None, bwd, None, "no Hessian/VJP use found in the backward rule")
+            continue
+        ev = solves[0]
+        a = ev.c[2][1:]
+        if len(a) != 6:
+            emit("D4", R4, f"{bwd.name}:adjoint-solve", None, bwd, None, "the CG solver does not have the 6 parameters (x, r, hess_vec, precond, trSize, settings)")
+            continue
+        emit("D4", R4, f"{bwd.name}:adjoint-solve", True, bwd, None, "one CG solve of the adjoint system")
+        x0, rhs, hv, precond, trs, sett = a
+        LAM = ("item", ev.c, ("c", 0))
+        s_rhs, core = _strip_sign(rhs)
+        emit("D4", R4, f"{bwd.name}:adjoint-rhs", True if core == V else (None if S.occurs(core, V) else False), bwd, None, "linear term is the cotangent",
+             f"adjoint solve uses `{P_(rhs)[:80]}` as linear term instead of the cotangent")
+        z0 = _is_zero(x0)
+        emit("D4", R4, f"{bwd.name}:adjoint-start", True if z0 else (_solver_ignores_start(ctx) or (False if z0 is False else None)), bwd, None,
+             f"start {P_(x0)[:60]}", f"adjoint solve does not start from zero (`{P_(x0)[:80]}`)")
+        ok_tr = _unbounded(trs)
+        emit("D4", R4, f"{bwd.name}:adjoint-solve-unbounded", ok_tr, bwd, None, f"trust-region radius of the adjoint solve is {P_(trs)}",
+             f"the adjoint (linear) solve is run with trust-region radius `{P_(trs)[:60]}`: the CG iteration stops at that boundary, so for a large "
+             f"cotangent or a soft Hessian the adjoint vector is not H^-1 v and every sensitivity is wrong")
+        # operator
+        if hv[0] == "lam" and hv[1] == 1:
+            W = hv[4][0]
+            sgn, body = _strip_sign(hv[3])
+            if body[0] in ("vjp", "jvp"):
+                opinfo = _analyse_deriv(body, pattern)
+            elif body[0] == "tuple" and len(body) == 2 and body[1][0] == "vjp":
+                opinfo = "the operator returns the 1-tuple of a vjp pullback instead of a vector"
+            else:
+                opinfo = "the operator is not a derivative of the residual"
+            if isinstance(opinfo, dict):
+                okh = opinfo["wrt"] == "x" and opinfo["other"] == W and sgn == 1 and opinfo["index"] == 0
+                emit("D4", R4, f"{bwd.name}:adjoint-operator", okh, bwd, None, "operator w -> H(solution, parameters) w",
+                     f"adjoint operator is `{P_(hv[3])[:120]}`, not the (positive) Hessian-vector product")
+                if opinfo["wrt"] == "x":
+                    check_point_and_params("hessian-vector product of the adjoint solve", opinfo)
+            else:
+                emit("D4", R4, f"{bwd.name}:adjoint-operator", False if body[0] in ("vjp", "jvp", "tuple", "sym", "c") else None, bwd, None, "",
+                     f"adjoint operator `{P_(hv[3])[:120]}`: {opinfo}")
+        else:
+            emit("D4", R4, f"{bwd.name}:adjoint-operator", None, bwd, None, f"adjoint operator `{P_(hv)[:100]}` cannot be interpreted")
+
+        # ---- returned cotangents
+        if not okw:
+            continue
+        for pos, j in enumerate(M.ndiff_idx):
+            cot = rv[pos]
+            cname = pp[j]
+            if where[j] is None:
+                z = _is_zero(_strip_sign(I.canon(cot))[1])
+                emit("D4", R4, f"{bwd.name}:guess-cotangent", True if z else (False if z is False else None), bwd, None,
+                     f"cotangent of `{cname}` (not a parameter of the equilibrium) is zero",
+                     f"the cotangent returned for `{cname}` is `{P_(I.canon(cot))[:100]}`; the solution does not depend on the initial guess, the cotangent must vanish")
+                continue
+            if where[j] == "mixed":
+                emit("D3", R3, f"{bwd.name}:{cname}", None, bwd, None, f"`{cname}` enters the parameters in a way this rule cannot follow")
+                continue
+            if where[j] == "all":
+                if I.typed(cot) is not None:
+                    cot = I.as_rec(cot)
+                if isinstance(cot, (S.Rec, tuple, list)):
+                    vals = list(cot.values) if isinstance(cot, S.Rec) else list(cot)
+                    label = cot.tname if isinstance(cot, S.Rec) else "tuple"
+                    entries = [(k, v, f"{bwd.name}:{label}[{k}]") for k, v in enumerate(vals)]
+                    ty = I.sym_types.get(PF[1]) if PF[0] == "sym" else None
+                    nfields = len(PF) - 2 if PF[0] == "rec" else (len(ty[1]) if ty else None)
+                    if nfields is not None and len(vals) != nfields:
+                        emit("D3", R3, f"{bwd.name}:{label}:width", False, bwd, None, "", f"cotangent of `{cname}` has {len(vals)} entries, the parameters {nfields}")
+                        continue
+                else:
+                    emit("D3", R3, f"{bwd.name}:{cname}", None, bwd, None, f"cotangent of `{cname}` is `{P_(I.canon(cot))[:80]}`, not a record / tuple")
+                    continue
+            else:
+                entries = [(where[j], cot, f"{name}:design-slot")]
+            for (k, v, construct) in entries:
+                c = I.canon(v)
+                pk = PF[2 + k] if PF[0] == "rec" else ("item", PF, ("c", k))
+                nonekey = _none_key(pk)
+                okdetail = f"slot {k} <- lam . d residual / d parameter[{k}] at parameter[{k}] (None exactly when the parameter is None)"
+                if c == ("c", None):
+                    always = all(q.kind != "return" or not isinstance(q.value, tuple) or len(q.value) != ndiff or
+                                 q.I.canon(_entry(q.I, q.value[pos], k)) == ("c", None) for q in bps)
+                    if always:
+                        # slot never differentiated (not one of the property's parameter slots): recorded, not an obligation
+                        note = f"{bwd.name}: parameter slot {k} receives no sensitivity (constant None)"
+                        if note not in ctx.notes:
+                            ctx.notes.append(note)
+                        continue
+                    emit("D3", R3, construct, p.decided(nonekey) is True, bwd, None, okdetail,
+                         f"cotangent for parameter slot {k} is None on a path where parameter slot {k} is not known to be None (guarded by another slot?)")
+                    continue
+                s_ret, core = _strip_sign(c)
+                if core[0] != "vjp":
+                    emit("D3", R3, construct, False if (core[0] in ("jvp", "sym", "c", "tuple", "rec") or (core[0] == "item" and core[1][0] == "sym")) else None, bwd, None, "",
+                         f"cotangent for parameter slot {k} is `{P_(core)[:120]}`, not a vector-Jacobian product of the residual")
+                    continue
+                info = _analyse_deriv(core, pattern)
+                if not isinstance(info, dict):
+                    emit("D3", R3, construct, None, bwd, None, f"cotangent for slot {k}: {info}")
+                    continue
+                ok = info["wrt"] == "p" and info.get("slot") == k and info["X"] == pk and info["index"] == 0
+                emit("D3", R3, construct, ok, bwd, None, okdetail,
+                     f"cotangent for parameter slot {k} is the derivative with respect to "
+                     f"{'slot ' + str(info.get('slot')) if info['wrt'] == 'p' else info['wrt']} at primal `{P_(info['X'])[:60]}` (must be slot {k} at parameter[{k}])")
+                s_lam, ct = _strip_sign(info["other"])
+                emit("D4", R4, f"{bwd.name}:slot{k}:adjoint-vector", True if ct == LAM else (None if S.occurs(ct, LAM) else False), bwd, None, "contracted with lam = (CG solution)[0]",
+                     f"parameter Jacobian is contracted with `{P_(info['other'])[:80]}` instead of the adjoint solution")
+                emit("D4", R4, f"{bwd.name}:return-sign", s_ret * s_lam * s_rhs == 1, bwd, None, "lam = -H^-1 v and lam . dR/dp is returned with that sign",
+                     f"the signs do not combine to the implicit-function-theorem sign: cotangent {'negated' if s_ret < 0 else 'as is'}, adjoint vector "
+                     f"{'negated' if s_lam < 0 else 'as is'}, linear term of the adjoint solve {'negated' if s_rhs < 0 else 'as is'}")
+                if info["wrt"] == "p":
+                    check_point_and_params(f"vjp-slot{info.get('slot')}", info)
+    if n_ret == 0 and not any(p.kind in ("crash", "error") for p in bps):
+        emit("D2", R2, f"{name}:bwd-executes", None, bwd, None, "no path of the backward rule returns")
+
+
+def _evaluate(M, ndiff):
+    """One round of interpretation of forward rule, backward rule and primal under the current symbol types."""
+    out = {"new_types": {}}
+    fps = M.run_fwd()
+    good = [p for p in fps if p.kind == "return"]
+    if not good:
+        bad = any(p.kind == "crash" for p in fps)
+        out["stop"] = ("fwd-returns-pair", False if bad else None, M.fwd, f"forward rule cannot be evaluated ({_why(fps)})")
+        return out
+    fv = good[0].value
+    if any(not (isinstance(p.value, tuple) and len(p.value) == 2) for p in good):
+        out["stop"] = ("fwd-returns-pair", False, M.fwd, "forward rule does not return a pair (out, residuals)")
+        return out
+    # path-dependent forward values: every one of them must be the primal's value; the backward rule is analysed on the first
+    out["fwd_outs"] = [p.I.canon(p.value[0]) for p in good]
+    bps = M.run_bwd(fv[1])
+    for p in bps:
+        if p.kind == "return" and isinstance(p.value, tuple) and len(p.value) == ndiff:
+            for pos, j in enumerate(M.ndiff_idx):
+                v = p.value[pos]
+                if isinstance(v, S.Rec) and f"arg{j}" not in M.types:
+                    out["new_types"][f"arg{j}"] = (v.tname, v.fields, v.ndefaults)
+    pps = M.run_primal()
+    pgood = [p for p in pps if p.kind == "return"]
+    if not pgood:
+        out["stop"] = ("primal", False if any(p.kind == "crash" for p in pps) else None, M.prim, f"the primal cannot be evaluated ({_why(pps)})")
+        return out
+    facts = set()
+    live = None
+    for p in pgood:
+        objs = _obj_of(p.I, M.nondiff)
+        if len(objs) != 1:
+            facts.add(("?", None, None))
+            continue
+        oi, obj = objs[0]
+        args0 = M.arg_values(p.I)
+        argsyms = [("sym", f"arg{j}") for j in M.ndiff_idx]
+        # parameter cell: the attribute of the objective holding (something built from) a differentiable argument when the primal returns
+        cells = [a for a, v in obj.attrs.items() if isinstance(v, (S.T, S.Rec, tuple)) and any(S.occurs(p.I.canon(v), s) for s in argsyms)]
+        facts.add((oi, tuple(sorted(cells)), tuple(p.I.canon(obj.attrs[a]) for a in sorted(cells))))
+        live = obj
+    if len(facts) != 1 or ("?", None, None) in facts:
+        out["stop"] = ("primal", None, M.prim, "cannot identify the objective argument / its parameter cell in the primal")
+        return out
+    oi, cells, cellvals = next(iter(facts))
+    if len(cells) == 0:
+        out["stop"] = ("primal", False, M.prim, "the primal never stores (a function of) its differentiable arguments in the parameters of the objective "
+                       "before the minimiser runs: the equilibrium that is returned does not depend on them, every sensitivity is meaningless")
+        return out
+    if len(cells) != 1:
+        out["stop"] = ("primal", None, M.prim, f"the primal stores differentiable arguments in {len(cells)} attributes of the objective")
+        return out
+    pattr = cells[0]
+    val = live.attrs[pattr]
+    stale_name = f"{live.label}.init.{pattr}"
+    if stale_name not in M.types:
+        if isinstance(val, S.Rec):
+            out["new_types"][stale_name] = (val.tname, val.fields, val.ndefaults)
+        else:
+            # the cell is not rebuilt as a literal record (p._replace(...), list(p), ...): its type is the parameter record of the
+            # module that defines the objective (the only namedtuple defined there)
+            nts = _params_class(M.ctx, pgood[0].I)
+            if len(nts) == 1:
+                out["new_types"][stale_name] = (nts[0].name, nts[0].fields, len(nts[0].defaults))
+    out.update(fv=fv, good=good, bps=bps, pgood=pgood, oi=oi, pattr=pattr, PF=cellvals[0])
+    return out
+
+
+def _unbounded(c):
+    """True: the radius is +infinity (or a constant beyond any iterate); False: a finite constant or a data-dependent radius; None: unknown"""
+    while c[0] == "app" and c[1][0] == "ext" and c[1][1].split(".")[-1] in ("float", "array", "asarray", "float64", "float32") and len(c[2]) == 2:
+        c = c[2][1]
+    if c[0] == "ext":
+        return c[1] in S.INF_NAMES
+    if c[0] == "c":
+        if isinstance(c[1], (int, float)) and not isinstance(c[1], bool):
+            return c[1] >= 1e15
+        return False
+    if c[0] in ("attr", "item", "sym"):
+        return False          # a setting / data value: finite in general
+    if c[0] == "un" and c[1] == ("c", "-"):
+        return False
+    return None
+
+
+def _entry(I, v, k):
+    if I.typed(v) is not None:
+        v = I.as_rec(v)
+    if isinstance(v, S.Rec):
+        return v.values[k] if k < len(v.values) else None
+    if isinstance(v, tuple):
+        return v[k] if k < len(v) else None
+    return v
+
+
+def _none_key(pk_canon):
+    """decision key of the atom `pk == None` (see Interp.atom)"""
+    lo, hi = sorted([pk_canon, ("c", None)], key=repr)
+    return ("eq", lo, hi)
+
+
+def _solver_ignores_start(ctx):
+    """True when the CG solver uses its first parameter only as `0 * x` (a shape donor): the iteration starts from zero whatever is passed."""
+    cg = ctx.repo.find(SOLVER)
+    if cg is None or not cg.params():
+        return None
+    x = cg.params()[0]
+    parent = {}
+    for n in ast.walk(cg.node):
+        for ch in ast.iter_child_nodes(n):
+            parent[id(ch)] = n
+    uses = [n for n in ast.walk(cg.node) if isinstance(n, ast.Name) and n.id == x and isinstance(n.ctx, ast.Load)]
+    if not uses:
+        return True
+    for u in uses:
+        par = parent.get(id(u))
+        ok = False
+        if isinstance(par, ast.BinOp) and isinstance(par.op, ast.Mult):
+            other = par.right if par.left is u else par.left
+            ok = const_value(other) == 0 and const_value(other) is not None
+        if isinstance(par, ast.Call) and (S.norm_src(par.func).split(".")[-1] in ("zeros_like",)):
+            ok = True
+        if not ok:
+            return None
+    if any(isinstance(n, ast.Name) and n.id == x and isinstance(n.ctx, ast.Store) for n in ast.walk(cg.node)):
+        return None
+    return True
+
+
 # ------------------------------------------------------------------ D3
 
-def _piu_calls(node):
-    return [c for c in ast.walk(node) if isinstance(c, ast.Call) and dotted(c.func) and dotted(c.func).endswith("param_index_update")]
+def _objective_instance(ctx):
+    """(interpreter, Obj): a symbolic Objective whose constructor has been interpreted on fresh symbols"""
+    cls = ctx.need(f"{OBJ}:Objective")
+    I = _interp(ctx, duck={"self": cls})
+    try:
+        obj = I.commit_duck("self")
+    except (S.EvalError, S.Crash, S.Raised) as ex:
+        raise Incomplete(f"Objective.__init__ cannot be interpreted: {ex}")
+    return I, obj, cls
+
+
+def _params_class(ctx, I):
+    m = ctx.need_module(OBJ)
+    out = []
+    for nm, bs in m.scope.bindings.items():
+        if bs and bs[-1].kind == "assign":
+            try:
+                v = I.module_value(m, nm)
+            except (S.EvalError, S.Crash, S.Raised):
+                continue
+            if isinstance(v, S.NTClass):
+                out.append(v)
+    return out
 
 
 def d3_param_index_update(ctx):
+    """param_index_update(p, k, new) evaluates, for every slot k of the parameter record, to a record with `new` in slot k and p[j] in
+    every other slot j (decided on the value the function returns for a symbolic p, whatever the control flow looks like)."""
     rule = "D3/T5-parameter-slots"
-    # param_index_update table
     piu = ctx.need(f"{OBJ}:param_index_update")
-    pp = piu.params()
-    nbranches = 0
-    for st in piu.node.body:
-        if isinstance(st, ast.If) and isinstance(st.test, ast.Compare) and isinstance(st.test.left, ast.Name) \
-                and st.test.left.id == pp[1] and isinstance(st.test.ops[0], ast.Eq):
-            k = const_value(st.test.comparators[0])
-            ret = [s for s in st.body if isinstance(s, ast.Return)]
-            if not ret or not isinstance(ret[0].value, ast.Call):
-                ctx.undecided(rule, piu, st, construct=f"param_index_update:{k}", detail="branch does not return a constructor call")
+    if len(piu.params()) < 3:
+        raise Incomplete("param_index_update does not take (parameters, index, new value)")
+    I0 = _interp(ctx)
+    nts = _params_class(ctx, I0)
+    types = {"p": (nts[0].name, nts[0].fields, len(nts[0].defaults))} if len(nts) == 1 else {}
+    NEW = I0.sym("new")
+
+    def call(k):
+        return S.paths(lambda plan: _interp(ctx, plan, types=types),
+                       lambda J: J.call_closure(J.module_value(piu.module, piu.name), [J.sym("p"), k, J.sym("new")], {}, force=True))
+    first = call(0)
+    rec = [p.value for p in first if p.kind == "return" and isinstance(p.value, S.Rec)]
+    if not rec:
+        ctx.decide(rule, False if any(p.kind == "crash" for p in first) else None, piu, None, construct="param_index_update:index==0",
+                   detail=f"param_index_update(p, 0, new) does not evaluate to a record ({_why(first)})")
+        return
+    n = len(rec[0].fields)
+    for k in range(n):
+        ps = call(k)
+        rets = [p for p in ps if p.kind == "return"]
+        bad = [p for p in ps if p.kind != "return"]
+        if bad:
+            p0 = bad[0]
+            ctx.decide(rule, False if p0.kind in ("crash", "raise") else None, piu, None, construct=f"param_index_update:index=={k}",
+                       detail=f"param_index_update(p, {k}, new) {p0.kind}: {p0.info}")
+            continue
+        ok, why = True, []
+        for p in rets:
+            v = p.value
+            if p.I.typed(v) is not None:
+                v = p.I.as_rec(v)
+            if not isinstance(v, S.Rec) or len(v.values) != n:
+                ok = False
+                why.append(f"returns {S.show(p.I.canon(v))[:60]} instead of a {n}-field record")
                 continue
-            nbranches += 1
-            args = ret[0].value.args
-            ok = True
-            why = []
-            for j, a in enumerate(args):
-                if j == k:
-                    if not (isinstance(a, ast.Name) and a.id == pp[2]):
-                        ok = False
-                        why.append(f"slot {j} gets {src(a)} instead of the new value")
-                else:
-                    good = isinstance(a, ast.Subscript) and isinstance(a.value, ast.Name) and a.value.id == pp[0] \
-                        and const_value(a.slice) == j
-                    if not good:
-                        ok = False
-                        why.append(f"slot {j} gets {src(a)} instead of {pp[0]}[{j}]")
-            ctx.decide(rule, ok, piu, ret[0], construct=f"param_index_update:index=={k}",
-                       detail=f"index {k}: new value in slot {k}, others copied",
-                       bad_detail=f"param_index_update(index=={k}): " + "; ".join(why))
-    params_nt = None
-    for v in ctx.repo.resolve(ast.Name(id="Params", ctx=ast.Load()), piu.module.scope):
-        if hasattr(v, "fields"):
-            params_nt = v
-    if params_nt is None:
-        raise Incomplete("Objective.Params namedtuple not found")
-    if nbranches < len(params_nt.fields):
+            for j, x in enumerate(v.values):
+                want = NEW.c if j == k else p.I.canon(p.I.getitem(p.I.sym("p"), j))
+                if p.I.canon(x) != want:
+                    ok = False
+                    why.append(f"slot {j} gets {S.show(p.I.canon(x))[:40]} instead of {'the new value' if j == k else S.show(want)[:40]}")
+        ctx.decide(rule, ok, piu, None, construct=f"param_index_update:index=={k}",
+                   detail=f"index {k}: new value in slot {k}, others copied",
+                   bad_detail=f"param_index_update(index=={k}): " + "; ".join(why[:4]))
+    if nts and all(len(nt.fields) != n for nt in nts):
         ctx.refuted(rule, piu, None, construct="param_index_update:coverage",
-                    detail=f"{nbranches} index branches for {len(params_nt.fields)} Params fields")
+                    detail=f"param_index_update builds {n}-slot records but the parameter tuple of Objective has {[len(nt.fields) for nt in nts]} fields")
 
 
-def d3_objective_closures(ctx, pattern=r"^(vec_jac_xp\d*|jac_xp\d*_vec)$", min_count=6):
+def _kinds_of(pattern):
+    kinds = set()
+    if pattern is None or re.match(pattern, "vec_jac_xp0"):
+        kinds.add("vjp")
+    if pattern is None or re.match(pattern, "jac_xp_vec"):
+        kinds.add("jvp")
+    return kinds
+
+
+def _deriv_terms(c):
+    """derivative terms a callable returns: the value itself, or the elements of a returned tuple"""
+    sg, core = _strip_sign(c)
+    if core[0] in ("vjp", "jvp"):
+        return [(core, False)]
+    if core[0] == "tuple":
+        return [(x, True) for x in core[1:] if isinstance(x, tuple) and x and x[0] in ("vjp", "jvp")]
+    return []
+
+
+def d3_objective_closures(ctx, pattern=None, min_count=6):
+    """Every derivative operator that Objective's constructor stores on the instance (callables that return a vjp / jvp of the residual)
+    must differentiate at *its own* parameter argument: the slot that is varied is the slot whose current value is the primal, all other
+    slots are read from the same argument (not from state captured when the closure was built / traced).  Every public method that
+    returns such a derivative must agree with the slot number and the side (vec_ = left, _vec = right) announced by its name."""
     rule = "D3/T5-parameter-slots"
-    # Objective.__init__ closures
+    kinds = _kinds_of(pattern)
+    I, obj, cls = _objective_instance(ctx)
     init = ctx.need(f"{OBJ}:Objective.__init__")
+    pattr = _objective_param_attr(ctx, I, obj)
+    pattern_r = _residual_pattern(I, obj, pattr)
+    stored = obj.attrs.get(pattr)
+    storedc = I.canon(stored)
+    # record type of the parameters (the namedtuple of the Objective module): closure arguments are typed with it, so that
+    # p[k], p.<field>, p._replace(...) and tuple unpacking all denote the same slots
+    nts = _params_class(ctx, I)
+    ty = (nts[0].name, nts[0].fields, len(nts[0].defaults)) if len(nts) == 1 else None
+    if ty is not None and storedc[0] == "sym":
+        I.sym_types[storedc[1]] = ty
     n_cl = 0
-    for st in walk_local(init.node):
-        if not (isinstance(st, ast.Assign) and isinstance(st.targets[0], ast.Attribute)):
+    closures = []
+    for attr in sorted(obj.attrs):
+        v = obj.attrs[attr]
+        if isinstance(v, (S.Closure, S.Partial)):
+            closures.append((attr, v))
+        elif isinstance(v, dict):
+            closures += [(f"{attr}[{k!r}]", x) for k, x in v.items() if isinstance(x, (S.Closure, S.Partial))]
+        elif isinstance(v, (list, tuple)):
+            closures += [(f"{attr}[{k}]", x) for k, x in enumerate(v) if isinstance(x, (S.Closure, S.Partial))]
+    for attr, v in closures:
+        if isinstance(v, S.Partial):
+            n = I.arity(v)
+            if n is None:
+                continue
+            ps = [f"a{i}" for i in range(n)]
+        else:
+            sc = v.scope
+            if sc.has_varargs() or sc.has_kwargs():
+                continue
+            ps = sc.params()
+        syms = [I.sym(f"{attr}.{p_}") for p_ in ps]
+        if ty is not None:
+            for s_ in syms:
+                I.sym_types[s_.args[0]] = ty
+        I.in_canon += 1
+        snap = I.snapshot()
+        try:
+            res = I.canon(I.call(v, list(syms), {}))
+        except (S.EvalError, S.Crash, S.Raised):
             continue
-        attr = st.targets[0].attr
-        if not re.match(pattern, attr):
-            continue
-        n_cl += 1
-        mnum = re.search(r"xp(\d+)", attr)
-        want = int(mnum.group(1)) if mnum else 0
-        calls = _piu_calls(st.value)
-        ks = [const_value(c.args[1]) for c in calls if len(c.args) >= 2]
-        prim = []
-        for c in ast.walk(st.value):
-            if isinstance(c, ast.Call) and dotted(c.func) in ("jvp", "vjp"):
-                # primal: 2nd positional (tuple for jvp)
-                pa = c.args[1] if len(c.args) > 1 else None
-                if isinstance(pa, ast.Tuple) and pa.elts:
-                    pa = pa.elts[0]
-                if isinstance(pa, ast.Subscript):
-                    prim.append(const_value(pa.slice))
-        ok = len(ks) == 1 and len(prim) == 1 and ks[0] == want and prim[0] == want
-        # the replaced slot value must be the lambda's own variable
-        lamvar_ok = True
-        for c in calls:
-            lam = None
-            for w in ast.walk(st.value):
-                if isinstance(w, ast.Lambda) and any(x is c for x in ast.walk(w.body)) and len(w.args.args) == 1:
-                    lam = w
-            if lam is None or not (len(c.args) >= 3 and isinstance(c.args[2], ast.Name) and c.args[2].id == lam.args.args[0].arg):
-                lamvar_ok = False
-        # the parameter tuple being updated must be the closure's own `p` argument (2nd lambda parameter),
-        # not state captured at trace time
-        outer = st.value.args[0] if isinstance(st.value, ast.Call) and st.value.args and isinstance(st.value.args[0], ast.Lambda) else None
-        own_p = outer.args.args[1].arg if outer is not None and len(outer.args.args) >= 2 else None
-        for c in calls:
-            if not (c.args and isinstance(c.args[0], ast.Name) and c.args[0].id == own_p):
-                lamvar_ok = False
-        for c in ast.walk(st.value):
-            if isinstance(c, ast.Call) and dotted(c.func) in ("jvp", "vjp"):
-                pa = c.args[1] if len(c.args) > 1 else None
-                if isinstance(pa, ast.Tuple) and pa.elts:
-                    pa = pa.elts[0]
-                if isinstance(pa, ast.Subscript) and not (isinstance(pa.value, ast.Name) and pa.value.id == own_p):
-                    lamvar_ok = False
-        ctx.decide(rule, ok and lamvar_ok, init, st, construct=f"Objective.{attr}",
-                   detail=f"slot {want}: param_index_update index {ks}, primal p[{prim}]",
-                   bad_detail=f"Objective.{attr} differentiates slot {ks} at primal p{prim} (name says slot {want})"
-                              + ("" if lamvar_ok else "; the updated tuple / primal is not the closure's own parameter argument or the replaced value is not the differentiation variable"))
+        finally:
+            I.in_canon -= 1
+            I.restore(snap)
+        for (t, _) in _deriv_terms(res):
+            info = _analyse_deriv(t, pattern_r)
+            if not isinstance(info, dict) or info["wrt"] is None:
+                continue
+            symc = [s_.c for s_ in syms]
+            if info["wrt"] == "x":
+                ok = info["X"] in symc and info["P"] in symc and info["P"] != info["X"]
+                why = ""
+                if S.occurs(info["P"], storedc) or info["P"] == storedc:
+                    why = f"the Hessian action reads the parameters stored on the object (`self.{pattr}`) instead of its own argument"
+                if "vjp" in kinds and "jvp" in kinds:
+                    ctx.decide(rule, ok, init, None, construct=f"Objective.{attr}:hessian-at-own-parameters",
+                               detail="second derivative at the closure's own (x, p)",
+                               bad_detail=f"Objective.{attr}: {why or 'the second derivative is not taken at the closure own arguments'}")
+                continue
+            if info["kind"] not in kinds:
+                continue
+            if info["wrt"] == "p-all":
+                continue            # derivative with respect to the whole parameter record: not a slot operator
+            n_cl += 1
+            if info["wrt"] != "p":
+                ctx.undecided(rule, init, None, construct=f"Objective.{attr}",
+                              detail=f"Objective.{attr}: the differentiation variable enters the parameters in more than one place; slot not identified")
+                continue
+            k = info["slot"]
+            fields = info["fields"]
+            # own parameter argument: the closure parameter B with primal == B[k] and every other slot == B[j]
+            own = [b for b in symc if info["X"] == ("item", b, ("c", k)) and all(f == ("item", b, ("c", j)) for j, f in enumerate(fields) if j != k)]
+            slot_ok = any(info["X"] == ("item", b, ("c", k)) for b in symc)
+            point_ok = info["U"] in symc
+            ok = bool(own) and point_ok and info["index"] == 0
+            why = []
+            if not slot_ok:
+                prim_slots = [f"{S.show(info['X'])}"]
+                why.append(f"differentiates slot {k} at primal `{prim_slots[0]}` (must be the closure's own parameter[{k}])")
+            elif not own:
+                foreign = [j for j, f in enumerate(fields) if j != k and not any(f == ("item", b, ("c", j)) for b in symc)]
+                if any(S.occurs(fields[j], storedc) for j in foreign):
+                    why.append(f"slots {foreign} are read from `self.{pattr}`, i.e. from state captured when the closure is traced, not from the closure's own parameter argument")
+                else:
+                    why.append(f"slots {foreign} of the updated tuple are not the closure's own parameter argument")
+            ctx.decide(rule, ok, init, None, construct=f"Objective.{attr}",
+                       detail=f"slot {k}: varies parameter[{k}] of its own argument at primal parameter[{k}]",
+                       bad_detail=f"Objective.{attr} " + "; ".join(why or ["is not an exact parameter derivative of the residual"]))
     if n_cl < min_count:
         raise Incomplete(f"{n_cl} parameter jvp/vjp closures found in Objective.__init__ ({min_count} on the reference tree)")
-    # methods delegate to the same-numbered closure
-    cls = ctx.need(f"{OBJ}:Objective")
+    # public methods
     for meth in cls.children:
-        mm = re.match(r"^(vec_jacobian_p(\d)|jacobian_p(\d?)_vec)$", meth.name)
-        if not mm:
+        if meth.kind != "function" or meth.name.startswith("__"):
             continue
-        if not re.match(pattern, "vec_jac_xp0" if meth.name.startswith("vec_") else "jac_xp_vec"):
+        ps = meth.params()
+        if not ps or meth.has_varargs() or meth.has_kwargs():
             continue
-        want = int(mm.group(2) or mm.group(3) or 0)
-        rets = meth.returns()
-        ok = False
-        got = "?"
-        if len(rets) == 1 and isinstance(rets[0], ast.Call) and isinstance(rets[0].func, ast.Attribute):
-            got = rets[0].func.attr
-            mnum = re.search(r"xp(\d+)", got)
-            gotk = int(mnum.group(1)) if mnum else 0
-            kind_ok = ("vec_jac" in got) == meth.name.startswith("vec_")
-            ok = gotk == want and kind_ok
-        ctx.decide(rule, ok, meth, rets[0] if rets else None, construct=f"Objective.{meth.name}",
-                   detail=f"delegates to self.{got}", bad_detail=f"Objective.{meth.name} delegates to self.{got}")
+        syms = [I.sym(f"{meth.name}.{p_}") for p_ in ps[1:]]
+        I.in_canon += 1
+        snap = I.snapshot()
+        try:
+            res = I.canon(I.call(I.getattr(obj, meth.name), list(syms), {}))
+        except (S.EvalError, S.Crash, S.Raised):
+            continue
+        finally:
+            I.in_canon -= 1
+            I.restore(snap)
+        for (t, _) in _deriv_terms(res):
+            info = _analyse_deriv(t, pattern_r)
+            if not isinstance(info, dict) or info["wrt"] != "p":
+                continue
+            if info["kind"] not in kinds:
+                continue
+            ctx.touch(meth)
+            digits = re.findall(r"\d+", meth.name)
+            want = int(digits[0]) if digits else (0 if re.fullmatch(r"jacobian_p_vec|vec_jacobian_p", meth.name) else None)
+            side = "vjp" if meth.name.startswith("vec_") else ("jvp" if meth.name.endswith("_vec") else None)
+            k = info.get("slot")
+            exact = info["wrt"] == "p" and info["X"] == ("item", storedc, ("c", k)) and \
+                all(f == ("item", storedc, ("c", j)) for j, f in enumerate(info["fields"]) if j != k)
+            ok = exact and (want is None or want == k) and (side is None or side == info["kind"])
+            ctx.decide(rule, ok, meth, None, construct=f"Objective.{meth.name}",
+                       detail=f"{info['kind']} of the residual with respect to parameter slot {k} at the stored parameters",
+                       bad_detail=f"Objective.{meth.name} returns the {info['kind']} with respect to parameter slot {k}"
+                                  + (f" (the name announces slot {want})" if want is not None and want != k else "")
+                                  + (f" (the name announces a {side})" if side and side != info["kind"] else "")
+                                  + ("" if exact else " and not at the parameters stored on the object"))
+
+
+def _objective_param_attr(ctx, I, obj):
+    """the attribute of Objective that holds the parameters: the one the constructor fills from a constructor argument and that
+    `gradient` reads -- found by role: the reverse rules reassign it; here: the attribute whose replacement changes gradient(x)."""
+    cands = []
+    for a, v in obj.attrs.items():
+        if isinstance(v, S.T) and v.op == "sym" and v.args[0].startswith(f"{obj.label}.init."):
+            U = I.sym("?U")
+            saved = obj.attrs[a]
+            I.in_canon += 1
+            try:
+                obj.attrs[a] = I.sym("?probe")
+                r = I.canon(I.call(I.getattr(obj, "gradient"), [U], {}))
+            except (S.EvalError, S.Crash, S.Raised):
+                r = None
+            finally:
+                I.in_canon -= 1
+                obj.attrs[a] = saved
+            if r is not None and S.occurs(r, ("sym", "?probe")):
+                cands.append(a)
+    if len(cands) != 1:
+        raise Incomplete(f"cannot identify the parameter attribute of Objective (candidates {cands})")
+    return cands[0]
 
 
 def d3(ctx):
     rule = "D3/T5-parameter-slots"
-    d3_param_index_update(ctx)
-    d3_objective_closures(ctx)
-    # nonlinear_solve_with_state_b : Params(dp0, dp1, dp2, None, dp4)
-    b = ctx.need(f"{NS}:nonlinear_solve_with_state_b")
-    bcfg = cfg_of(b)
-    for rn in bcfg.returns():
-        r = rn.ast.value
-        if not (isinstance(r, ast.Tuple) and len(r.elts) == 2 and isinstance(r.elts[1], ast.Call)):
-            ctx.undecided(rule, b, r, construct="with_state_b:return", detail="unexpected return shape")
-            continue
-        pc = r.elts[1]
-        for k, a in enumerate(pc.args):
-            if isinstance(a, ast.Constant) and a.value is None:
-                continue
-            if not isinstance(a, ast.Name):
-                ctx.undecided(rule, b, a, construct=f"with_state_b:Params[{k}]", detail="non-name cotangent")
-                continue
-            defs = bcfg.reaching(rn, a.id)
-            vals = []
-            okk = True
-            for d in defs:
-                v = d.ast.value if isinstance(d.ast, ast.Assign) else None
-                if isinstance(v, ast.Constant) and v.value is None:
-                    continue
-                s = src(v)
-                mnum = re.search(r"vec_jacobian_p(\d)", s)
-                vals.append(s)
-                if not mnum or int(mnum.group(1)) != k:
-                    okk = False
-                # guarded by p[k]
-                facts = bcfg.edge_facts(d)
-                g = [src(c.ast) for (c, lab) in facts if lab is True]
-                if not any(re.search(r"\[%d\]" % k, x) for x in g):
-                    okk = False
-            ctx.decide(rule, okk and bool(vals), b, a, construct=f"with_state_b:Params[{k}]",
-                       detail=f"slot {k} <- {vals}",
-                       bad_detail=f"cotangent for parameter slot {k} is computed as {vals} (must be vec_jacobian_p{k}, guarded by p[{k}])")
-    # nonlinear_solve_b: design slot 2 both in the parameter update and the VJP
-    b2 = ctx.need(f"{NS}:nonlinear_solve_b")
-    prim = ctx.need(f"{NS}:nonlinear_solve")
-    ks = [const_value(c.args[1]) for c in _piu_calls(prim.node)] + [const_value(c.args[1]) for c in _piu_calls(b2.node)]
-    vj = [int(m) for m in re.findall(r"vec_jacobian_p(\d)", src(b2.node))]
-    ok = len(set(ks + vj)) == 1 and len(ks) == 2 and len(vj) >= 1
-    ctx.decide(rule, ok, b2, None, construct="nonlinear_solve:design-slot",
-               detail=f"param_index_update slots {ks}, vec_jacobian slots {vj}",
-               bad_detail=f"nonlinear_solve updates parameter slots {ks} but its reverse rule differentiates slots {vj}")
-    # MechanicsInverse vjp wrappers: vjp(lambda z: F(..z..), P) -- z replaces the outer param that is P
+    ctx.guard(_g(d3_param_index_update), ctx)
+    ctx.guard(_g(d3_objective_closures), ctx)
+    for (prim, nondiff) in _vjp_models(ctx):
+        ctx.guard(_g(_reverse_rule), ctx, prim, nondiff, ("D3",))
+    ctx.guard(_g(_d3_wrappers), ctx)
+
+
+def _drop_static(c, x):
+    """c with x.shape / x.dtype / x.size / x.ndim replaced by a constant: reading static information of the primal does not make the
+    differentiated computation depend on it"""
+    if isinstance(c, tuple):
+        if len(c) == 3 and c[0] == "attr" and c[1] == x and c[2] in (("c", "shape"), ("c", "dtype"), ("c", "size"), ("c", "ndim")):
+            return ("c", "<static>")
+        return tuple(_drop_static(y, x) for y in c)
+    return c
+
+
+def _d3_wrappers(ctx):
+    """MechanicsInverse: every callable handed out by a factory that returns `vjp(F, P)[1](ct)[i]` must (1) differentiate F with respect to the
+    argument whose current value is P -- P itself must not occur in F next to the differentiation variable, and every other argument of the
+    callable (defaults included) must reach F; (2) use one of its own arguments as cotangent."""
+    rule = "D3/T5-parameter-slots"
     mi = ctx.need_module(MI)
     n_w = 0
-    for sc in mi.scope.descendants():
-        if sc.kind != "lambda":
+    for fac in mi.scope.children:
+        if fac.kind != "function":
             continue
-        lam = sc.node
-        body = lam.body
-        # pattern vjp(lambda z: CALL, P)[1](cot)[0]
-        for c in ast.walk(body):
-            if isinstance(c, ast.Call) and dotted(c.func) == "vjp" and len(c.args) == 2 and isinstance(c.args[0], ast.Lambda):
-                inner = c.args[0]
-                if sc.parent is not None and any(inner is ch.node for ch in sc.children) is False:
+        if fac.has_varargs() or fac.has_kwargs():
+            continue
+
+        def run(J, fac=fac):
+            f = J.module_value(mi, fac.name)
+            return J.call_closure(f, [J.sym(f"{fac.name}.{p_}") for p_ in fac.params()], {}, force=True)
+        try:
+            ps = S.paths(lambda plan: _interp(ctx, plan), run, limit=48)
+        except S.EvalError:
+            continue
+        seen = set()
+        for p in ps:
+            if p.kind != "return" or not isinstance(p.value, S.Rec):
+                continue
+            J = p.I
+            for fld, val in zip(p.value.fields, p.value.values):
+                if not isinstance(val, (S.Closure, S.Partial, S.Bound)):
                     continue
-                z = inner.args.args[0].arg
-                P = c.args[1]
-                call = inner.body
-                if not isinstance(call, ast.Call):
+                sc = val.scope if isinstance(val, S.Closure) else None
+                if sc is None or sc.has_varargs() or sc.has_kwargs():
                     continue
-                outer = [a.arg for a in lam.args.args]
-                args = [a.id if isinstance(a, ast.Name) else None for a in call.args]
-                if z not in args:
+                wid = f"{p.value.tname}.{fld}"
+                if wid in seen:
+                    continue
+                params = sc.params() + sc.kwonly()
+                syms = [J.sym(f"{fld}.{q}") for q in sc.params()]
+                J.in_canon += 1
+                snap = J.snapshot()
+                try:
+                    res = J.canon(J.call_closure(val, list(syms), {q: J.sym(f"{fld}.{q}") for q in sc.kwonly()}, force=True))
+                except (S.EvalError, S.Crash, S.Raised) as ex:
+                    ctx.undecided(rule, sc, None, construct=f"vjp-wrapper:{wid}", detail=f"callable cannot be interpreted: {ex}")
+                    seen.add(wid)
+                    continue
+                finally:
+                    J.in_canon -= 1
+                    J.restore(snap)
+                seen.add(wid)
+                symc = {("sym", f"{fld}.{q}"): q for q in params}
+                sg, core = _strip_sign(res)
+                if core[0] != "vjp":
+                    # a plain function of its arguments (dense Jacobian ...): every argument must reach the result
+                    unused = [q for s_, q in symc.items() if not S.occurs(core, s_)]
+                    ctx.decide(rule, not unused, sc, None, construct=f"vjp-wrapper-forwards:{wid}", detail="all parameters reach the result",
+                               bad_detail=f"{wid} accepts {unused} but never forwards it to the wrapped computation (the value silently falls back to a default)")
                     continue
                 n_w += 1
-                zi = args.index(z)
-                others = [a for a in args if a != z]
-                # the outer parameter missing from the inner call is the one z stands for
-                missing = [o for o in outer if o not in others and o not in ("av", "vx", "dt")]
-                # order check: inner args with z replaced by P must be a subsequence of outer params in order
-                repl = [a if a != z else (P.id if isinstance(P, ast.Name) else "?") for a in args]
-                in_order = [o for o in outer if o in repl] == [r for r in repl if r in outer]
-                ok = isinstance(P, ast.Name) and P.id in missing and in_order
-                # every parameter the wrapper accepts must reach the wrapped computation
-                used = {n.id for n in ast.walk(body) if isinstance(n, ast.Name)}
-                unused = [o for o in outer if o not in used]
-                ctx.decide(rule, not unused, sc, lam, construct=f"vjp-wrapper-forwards:{src(call)[:60]}",
-                           detail="all wrapper parameters are forwarded",
-                           bad_detail=f"wrapper accepts {unused} but never forwards it to `{src(call)[:60]}` (the value silently falls back to the callee's default)")
-                ctx.decide(rule, ok, sc, c, construct=f"vjp-wrapper:{src(call)[:60]}",
-                           detail=f"differentiation variable replaces `{P.id if isinstance(P, ast.Name) else '?'}` (argument {zi})",
-                           bad_detail=f"vjp primal is `{src(P)}` but the lambda variable stands for `{missing}` in `{src(call)}`")
+                F, primals, ct, idx = core[1], core[2][1:], core[3], core[4][1]
+                X = primals[idx] if idx < len(primals) else None
+                if not (isinstance(F, tuple) and F[0] == "lam" and F[1] == len(primals)):
+                    ctx.undecided(rule, sc, None, construct=f"vjp-wrapper:{wid}", detail="differentiated callable cannot be interpreted")
+                    continue
+                fbody, Zs = F[3], F[4]
+                others = {s_: q for s_, q in symc.items() if s_ != ct and s_ not in primals}
+                unused = [q for s_, q in others.items() if not S.occurs(fbody, s_)]
+                if ct not in symc:
+                    unused.append(f"(cotangent is `{S.show(ct)[:40]}`, not an argument)")
+                ctx.decide(rule, not unused, sc, None, construct=f"vjp-wrapper-forwards:{wid}", detail="all wrapper parameters are forwarded",
+                           bad_detail=f"{wid} accepts {unused} but never forwards it to the differentiated computation (the value silently falls back to the callee's default)")
+                inside = [symc.get(x, S.show(x)[:30]) for x in primals if S.occurs(_drop_static(fbody, x), x)]
+                notarg = [S.show(x)[:30] for x in primals if x not in symc]
+                dead = [i for i, z in enumerate(Zs) if not S.occurs(fbody, z)]
+                ok = False if (inside or dead) else (None if notarg else True)
+                ctx.decide(rule, ok, sc, None, construct=f"vjp-wrapper:{wid}",
+                           detail=f"differentiation variable replaces `{symc.get(X, '?')}` everywhere in the differentiated computation",
+                           bad_detail=f"{wid}: vjp primal is `{symc.get(X, S.show(X)[:30] if X else '?')}` but "
+                                      + (f"`{inside}` also occurs as a fixed argument of the differentiated computation, so the differentiation variable stands for another argument" if inside
+                                         else (f"the primal {notarg} is not an argument of the wrapper" if notarg else "the differentiated computation ignores its variable")))
     if n_w < 5:
         raise Incomplete(f"{n_w} vjp wrappers found in MechanicsInverse (5 on the reference tree)")
 
@@ -471,199 +1242,403 @@ def d3(ctx):
 
 def d4(ctx):
     rule = "D4/T7-adjoint-sign"
-    cg = ctx.need(f"{ES}:solve_trust_region_minimization")
-    ccfg = cfg_of(cg)
+    ctx.guard(_g(_d4_cg), ctx)
+    for (prim, nondiff) in _vjp_models(ctx):
+        ctx.guard(_g(_reverse_rule), ctx, prim, nondiff, ("D4",))
+
+
+def _dots(c):
+    """canonical key with every inner product of two vectors (a @ b, dot / vdot / inner (a, b)) written as a commutative `@`"""
+    if not isinstance(c, tuple):
+        return c
+    c = tuple(_dots(x) for x in c)
+    if len(c) == 4 and c[0] == "app" and c[1][0] == "ext" and c[1][1].split(".")[-1] in ("dot", "vdot", "inner") and len(c[2]) == 3 and c[3] == ("tuple",):
+        c = ("bin", ("c", "@"), c[2][1], c[2][2])
+    if len(c) == 4 and c[0] == "bin" and c[1] == ("c", "@"):
+        a, b = sorted([c[2], c[3]], key=repr)
+        c = ("bin", ("c", "@"), a, b)
+    return c
+
+
+class _ScalarModel:
+    """Canonical terms read as rational functions in the one-dimensional instance of the computation: every inner product is an ordinary
+    product, every opaque sub-term (application of an un-interpreted callable, symbol, attribute) an atom keyed by its normal form.
+    Two vector expressions that are equal for all data are in particular equal in dimension one, so a *difference* of the two rational
+    functions refutes the equality (the converse does not hold and is never used to prove)."""
+
+    def __init__(self):
+        from optilint.expr import Algebra
+        self.A = Algebra()
+        self.names = {}
+
+    def atom(self, key):
+        if key not in self.names:
+            self.names[key] = f"t{len(self.names)}"
+        return self.A.atom(self.names[key])
+
+    def rat(self, c):
+        A = self.A
+        if not isinstance(c, tuple) or not c:
+            return self.atom(repr(c))
+        if c[0] == "c" and isinstance(c[1], (int, float)) and not isinstance(c[1], bool):
+            return A.const(c[1])
+        if c[0] == "un" and c[1] == ("c", "-"):
+            return -self.rat(c[2])
+        if c[0] == "bin":
+            o = c[1][1]
+            if o in ("+", "-", "*", "/", "@"):
+                a, b = self.rat(c[2]), self.rat(c[3])
+                return {"+": lambda: a + b, "-": lambda: a - b, "*": lambda: a * b, "@": lambda: a * b, "/": lambda: a / b}[o]()
+            if o == "**" and c[3][0] == "c" and isinstance(c[3][1], int) and not isinstance(c[3][1], bool) and abs(c[3][1]) <= 6:
+                return self.rat(c[2]).pow(c[3][1])
+        if c[0] == "app" and c[1][0] == "ext" and c[1][1].split(".")[-1] in ("dot", "vdot", "inner") and len(c[2]) == 3:
+            return self.rat(c[2][1]) * self.rat(c[2][2])
+        if c[0] == "app":
+            return self.atom(("app", c[1], tuple(repr(self.rat(x)) for x in c[2][1:]), c[3]))
+        return self.atom(c)
+
+    def differ(self, a, b):
+        """True: the two terms denote different functions of the data; False: equal in the scalar model (no conclusion); None: model failed"""
+        try:
+            return not self.A.equal(self.rat(a), self.rat(b))
+        except Exception:
+            return None
+
+
+def _same_value(a, b):
+    """verdict for term `a` standing where `b` is expected: True (identical up to commutativity of +, * and of inner products), False (the
+    values differ already in the one-dimensional instance), None (different spelling, equivalence not decided)"""
+    if _dots(a) == _dots(b):
+        return True, ""
+    d = _ScalarModel().differ(a, b)
+    if d is True:
+        return False, "the two values differ already for one-dimensional data"
+    return None, "a different computation whose equivalence is not decided"
+
+
+def _d4_cg(ctx):
+    """The CG solver minimises r.z + 1/2 z.H z: one generic iteration is interpreted from the initial state (the loop body runs once on
+    symbolic data; the Hessian and the preconditioner are opaque callables).  Read off the values: the first vector the Hessian is applied
+    to is -precond(r); after the iteration z = z0 + alpha d with z0 = 0 and alpha = r.precond(r) / d.(H d); the residual became r + alpha H d."""
+    rule = "D4/T7-adjoint-sign"
+    cg = ctx.need(SOLVER)
     ps = cg.params()
-    rname, pname = ps[1], ps[3]
-    # first definition of the search direction d before the loop: d = -precond(r)
-    loops = [n for n in ccfg.nodes if n.kind == "for"]
-    if not loops:
-        raise Incomplete("CG loop not found")
-    loop = loops[0]
-    # roles of the CG locals, read off the call of the inner-product recurrence (its parameter names are the roles)
-    rec = ctx.need(f"{ES}:cg_inner_products_preconditioned")
-    rps = rec.params()        # alpha, beta, zd, dd, rPr, z, d
-    role = {}
-    for n in ccfg.nodes:
-        if n.kind == "stmt" and n.ast is not None and loop in n.loops:
-            for c in ast.walk(n.ast):
-                if isinstance(c, ast.Call) and isinstance(c.func, ast.Name) and len(c.args) == len(rps) and all(isinstance(a, ast.Name) for a in c.args):
-                    vals = ctx.repo.resolve(c.func, cg)
-                    if any(isinstance(v, FuncVal) and v.scope.name.startswith("cg_inner_products") for v in vals):
-                        role = {p: a.id for p, a in zip(rps, c.args)}
-    if not role:
-        raise Incomplete("CG recurrence call not found: roles of the CG locals unknown")
-    dn, zn, an, rprn = role[rps[6]], role[rps[5]], role[rps[0]], role[rps[4]]
-    ddefs = ccfg.reaching(loop, dn)
-    pre = [d for d in ddefs if loop not in d.loops]
-    ok = False
-    shown = "?"
-    if len(pre) == 1:
-        e = expand(ccfg, pre[0], pre[0].ast.value)
-        shown = src(e)
-        ok = isinstance(e, ast.UnaryOp) and isinstance(e.op, ast.USub) and isinstance(e.operand, ast.Call) \
-            and isinstance(e.operand.func, ast.Name) and e.operand.func.id == pname \
-            and isinstance(e.operand.args[0], ast.Name) and e.operand.args[0].id == rname
-    ctx.decide(rule, ok, cg, pre[0].ast if pre else None, construct="cg-first-direction",
-               detail=f"d0 = {shown}", bad_detail=f"first CG direction is `{shown}`, not -precond(r): the solver no longer minimises r.z + 1/2 z.H z")
-    # step: z + alpha*d with alpha = rPr/curvature, curvature = d.(H d)
-    u = Unifier(cg)
-    u.bind = {"z": zn, "d": dn, "alpha": an, "rPr": rprn}
-    hv = ps[2]
-    c1 = u.assigns(f"d @ {hv}(d)", target="curvature")
-    c2 = u.assigns("rPr / curvature", target="alpha")
-    c3 = u.assigns("z + alpha * d", target="zNp1")
-    ok = len(c1) == 1 and len(c2) == 1 and len(c3) == 1
-    ctx.decide(rule, ok, cg, c3[0] if c3 else None, construct="cg-step",
-               detail="z_{k+1} = z + (rPr/curvature) d, curvature = d.(H d)",
-               bad_detail="CG step is not z + (rPr/curvature)*d with curvature = d.(H d)")
-    # residual recurrence r += alpha*H d
-    rs = [n for n in ccfg.nodes if n.kind == "stmt" and isinstance(n.ast, ast.AugAssign) and isinstance(n.ast.target, ast.Name)
-          and n.ast.target.id == rname]
-    ok = len(rs) == 1 and isinstance(rs[0].ast.op, ast.Add) and u.match(rs[0].ast.value, f"alpha * {hv}(d)")
-    ctx.decide(rule, ok, cg, rs[0].ast if rs else None, construct="cg-residual-recurrence",
-               detail="r += alpha*H d", bad_detail="CG residual recurrence is not r += alpha*hess_vec_func(d)")
-    # both reverse rules: rhs is the cotangent itself, lam = results[0] unnegated, cotangent unnegated
-    for q in ("nonlinear_solve_b", "nonlinear_solve_with_state_b"):
-        b = ctx.need(f"{NS}:{q}")
-        bcfg = cfg_of(b)
-        vname = b.params()[-1]
-        calls = [c for c in calls_in(b) if dotted(c.func) and dotted(c.func).endswith("solve_trust_region_minimization")]
-        if len(calls) != 1:
-            ctx.undecided(rule, b, None, construct=f"{q}:adjoint-solve", detail=f"{len(calls)} adjoint solves found")
+    if len(ps) != 6:
+        raise Incomplete("the CG solver does not have the parameters (x, r, hess_vec, precond, trSize, settings)")
+
+    def mk(plan):
+        I = _interp(ctx, plan)
+        I.loop_once = True
+        return I
+
+    def run(I):
+        f = S.Closure(cg, I.module_env(cg.module))
+        return I.call_closure(f, [I.sym(p_) for p_ in ps], {}, force=True)
+    paths = S.paths(mk, run, limit=64)
+    full = [p for p in paths if p.kind == "return" and len(p.I.loop_done) == 1]
+    if not full:
+        ctx.undecided(rule, cg, None, construct="cg-first-direction", detail=f"no path through one complete CG iteration could be interpreted ({_why(paths)})")
+        return
+    agg = _Agg(ctx)
+    for p in full:
+        I = p.I
+        X, R, HV, PRE = (I.sym(q) for q in ps[:4])
+        Pr = ("app", PRE.c, ("tuple", R.c), ("tuple",))
+        d0 = ("un", ("c", "-"), Pr)
+        hv_calls = [ev for ev in I.events if ev.c[1] == HV.c]
+        if not hv_calls:
+            agg.add(rule, "cg-first-direction", None, cg, None, "the Hessian-vector product is never applied in the first iteration")
             continue
-        c = calls[0]
-        r = actual(c, ps, rname)
-        x0 = actual(c, ps, ps[0])
-        node = [n for n in bcfg.nodes if n.ast is not None and any(x is c for x in ast.walk(n.ast))][0]
-        x0s = src(expand(bcfg, node, x0))
-        ok = isinstance(r, ast.Name) and r.id == vname
-        ctx.decide(rule, ok, b, c, construct=f"{q}:adjoint-rhs", detail=f"linear term is the cotangent `{src(r)}`",
-                   bad_detail=f"adjoint solve uses `{src(r)}` as linear term instead of the cotangent `{vname}`")
-        okz = ("zeros_like" in x0s) or x0s.startswith("0.0 *") or x0s.startswith("0 *")
-        ctx.decide(rule, okz, b, c, construct=f"{q}:adjoint-start", detail=f"start {x0s}",
-                   bad_detail=f"adjoint solve does not start from zero (`{x0s}`)")
-        tr_ = actual(c, ps, ps[4])
-        trx = src(expand(bcfg, node, tr_)) if tr_ is not None else "?"
-        ok_tr = trx.replace(" ", "") in ("np.inf", "onp.inf", "numpy.inf", "jnp.inf", "float('inf')", 'float("inf")', "math.inf", "np.Inf")
-        ctx.decide(rule, ok_tr, b, c, construct=f"{q}:adjoint-solve-unbounded", detail=f"trust-region radius of the adjoint solve is {trx}",
-                   bad_detail=f"the adjoint (linear) solve is run with trust-region radius `{trx}`: the CG iteration stops at that boundary, so for a large "
-                              f"cotangent or a soft Hessian the adjoint vector is not H^-1 v and every sensitivity is wrong")
-        hv = actual(c, ps, ps[2])
-        hvx = src(expand(bcfg, node, hv))
-        okh = "hessian_vec" in hvx and "-" not in hvx
-        ctx.decide(rule, okh, b, c, construct=f"{q}:adjoint-operator", detail=f"operator {hvx}",
-                   bad_detail=f"adjoint operator is `{hvx}`, not the Hessian-vector product")
-        # cotangents: vec_jacobian_pK(Uu, lam)[0] with lam = results[0]
-        for n in bcfg.nodes:
-            if n.ast is None or n.kind != "stmt":
-                continue
-            for cc in ast.walk(n.ast):
-                if isinstance(cc, ast.Call) and isinstance(cc.func, ast.Attribute) and cc.func.attr.startswith("vec_jacobian_p"):
-                    a1 = expand(bcfg, n, cc.args[1]) if len(cc.args) > 1 else None
-                    s1 = src(a1)
-                    ok = bool(re.fullmatch(r".*solve_trust_region_minimization\(.*\)\[0\]", s1.replace("\n", " "))) and not s1.startswith("-")
-                    ctx.decide(rule, ok, b, cc, construct=f"{q}:{cc.func.attr}:adjoint-vector",
-                               detail="contracted with lam = (CG solution)[0]",
-                               bad_detail=f"parameter Jacobian is contracted with `{s1[:80]}` instead of the adjoint solution")
-        # returned values not negated
-        for r_ in b.returns():
-            neg = [x for x in ast.walk(r_) if isinstance(x, ast.UnaryOp) and isinstance(x.op, ast.USub)]
-            ctx.decide(rule, not neg, b, r_, construct=f"{q}:return-sign", detail="cotangents returned unnegated",
-                       bad_detail="a returned cotangent is negated although lam already carries the IFT minus sign")
+        first = hv_calls[0].c[2][1] if len(hv_calls[0].c[2]) > 1 else ("c", None)
+        sg, core = _strip_sign(first)
+        ok = True if (sg == -1 and core == Pr) else (False if core == Pr or not S.occurs(first, R.c) or core == R.c else None)
+        agg.add(rule, "cg-first-direction", ok, cg, None, "d0 = -precond(r)",
+                f"first CG direction is `{S.show(first)[:80]}`, not -precond(r): the solver no longer minimises r.z + 1/2 z.H z")
+        # expected values after one iteration, built from what the code itself applied the Hessian to
+        d = first
+        Hd = hv_calls[0].c
+        bin_ = lambda o, a, b: I.canon(I.binop(o, S.T("raw", (), a), S.T("raw", (), b)))
+        curv = ("bin", ("c", "@"), d, Hd)
+        alpha = ("bin", ("c", "/"), ("bin", ("c", "@"), R.c, Pr), curv)
+        rv = p.value
+        z1 = I.canon(rv[0]) if isinstance(rv, tuple) and rv else I.canon(rv)
+        step = bin_("*", alpha, d)
+        # z1 = z0 + alpha d with z0 zero
+        zs = [c_ for c_ in (z1[2], z1[3])] if (z1[0] == "bin" and z1[1] == ("c", "+")) else []
+        z0 = [c_ for c_ in zs if _is_zero(c_)]
+        rest = [c_ for c_ in zs if not _is_zero(c_)]
+        if len(zs) == 2 and len(z0) >= 1 and len(rest) == 1:
+            okv, what = _same_value(rest[0], step)
+        else:
+            okv, what = _same_value(z1, step)
+        agg.add(rule, "cg-step", okv, cg, None, "z_{k+1} = z + (rPr/curvature) d, curvature = d.(H d), z_0 = 0",
+                f"after one iteration the CG iterate is `{S.show(z1)[:120]}`, not 0 + (r.precond(r) / d.(H d)) d ({what})")
+        env = I.loop_done[0]
+        r1 = I.canon(env.get(ps[1]))
+        want = bin_("+", R.c, bin_("*", alpha, Hd))
+        okr, what = _same_value(r1, want)
+        agg.add(rule, "cg-residual-recurrence", okr, cg, None, "r += alpha*H d",
+                f"after one iteration the CG residual is `{S.show(r1)[:120]}`, not r + alpha*H d ({what})")
+    agg.flush()
 
 
 # ------------------------------------------------------------------ D5
 
-def _canon_ctor(fn_node, coords_expr):
-    """Canonical text of the statements that build shapes / shapeGrads / vols / mode table."""
+def _atomic(c):
+    """constants, symbols, named functions, fields of data, tuples of those: values that are *named*, not computed"""
+    if not isinstance(c, tuple) or not c:
+        return True
+    if c[0] in ("c", "sym", "ext", "func", "cls"):
+        return True
+    if c[0] in ("attr", "item"):
+        return _atomic(c[1])
+    if c[0] == "tuple":
+        return all(_atomic(x) for x in c[1:])
+    if c[0] == "rec":
+        return all(_atomic(x) for x in c[2:])
+    return False
+
+
+def _first_diff(a, b):
+    """innermost pair of differing sub-terms of two canonical keys (None when equal)"""
+    if a == b:
+        return None
+    if isinstance(a, tuple) and isinstance(b, tuple) and a and b and a[0] == b[0] and len(a) == len(b) \
+            and a[0] not in ("c", "sym", "ext", "func", "cls", "attr", "item"):
+        diffs = [d for d in (_first_diff(x, y) for x, y in zip(a[1:], b[1:])) if d is not None]
+        if len(diffs) == 1:
+            return diffs[0]
+        if diffs and all(_atomic(x) and _atomic(y) for x, y in diffs):
+            return diffs[0]
+    return (a, b)
+
+
+def _differs(a, b):
+    """verdict for `a` standing where `b` is expected: False (refuted) when the two terms have the same shape and differ in a named value
+    (another function, another array, another constant); None (undecided) when they are different computations whose equivalence this
+    rule cannot decide"""
+    d = _first_diff(a, b)
+    if d is None:
+        return True, ""
+    x, y = d
+    if _atomic(x) and _atomic(y):
+        return False, f"`{S.show(x)[:60]}` stands where `{S.show(y)[:60]}` is expected"
+    return None, f"a different computation (`{S.show(x)[:60]}` vs `{S.show(y)[:60]}`): equivalence not decided"
+
+
+def _namedtuples_of_repo(ctx, I):
+    """[(NTClass)] of the module-level namedtuple definitions of the library (AST filter first, evaluated by the interpreter)"""
+    key = "_c07_nts"
+    if key in ctx.__dict__:
+        return ctx.__dict__[key]
     out = []
-    for st in fn_node.body:
-        if isinstance(st, ast.Expr) and isinstance(st.value, ast.Constant):
+    for m in ctx.repo.modules.values():
+        if m.is_test:
             continue
-        s = norm_src(st)
-        s = s.replace("jax.vmap", "vmap").replace(coords_expr, "COORDS")
-        out.append(s)
+        for st in m.tree.body:
+            if isinstance(st, ast.Assign) and len(st.targets) == 1 and isinstance(st.targets[0], ast.Name) and isinstance(st.value, ast.Call) \
+                    and (S.norm_src(st.value.func).split(".")[-1] == "namedtuple"):
+                try:
+                    v = I.module_value(m, st.targets[0].id)
+                except (S.EvalError, S.Crash, S.Raised):
+                    continue
+                if isinstance(v, S.NTClass):
+                    out.append(v)
+    ctx.__dict__[key] = out
     return out
 
 
-def _clone(u):
-    v = Unifier(u.scope)
-    v.locals = set(u.locals)
-    v.bind = dict(u.bind)
-    return v
+def _attr_reads(c, out):
+    """{symbol name: {attribute names}} read directly off symbols inside a canonical key"""
+    if isinstance(c, tuple):
+        if len(c) == 3 and c[0] == "attr" and isinstance(c[1], tuple) and c[1][:1] == ("sym",) and isinstance(c[2], tuple) and c[2][:1] == ("c",):
+            out.setdefault(c[1][1], set()).add(c[2][1])
+        for x in c:
+            _attr_reads(x, out)
+    return out
 
 
 def d5(ctx):
+    """The function space returned by the adjoint constructor for (coords, shapeOnRef, mesh, quadratureRule, mode) must be, field by field,
+    the value the ordinary constructor returns for the mesh moved to `coords` (same shapeOnRef, quadratureRule, mode) -- for every mode
+    literal either constructor distinguishes.  Both constructors are interpreted on symbols; fields are compared as terms."""
     rule = "D5/T6-adjoint-function-space"
     a = ctx.need(f"{AFS}:construct_function_space_for_adjoint")
-    f = ctx.need("optimism.FunctionSpace:construct_function_space_from_parent_element")
-    # delegation is agreement
-    for c in calls_in(a):
-        if dotted(c.func) and dotted(c.func).endswith("construct_function_space_from_parent_element"):
-            ctx.proved(rule, a, c, construct="delegates", detail="adjoint constructor delegates to the ordinary constructor")
-            return
-    # sibling agreement statement by statement: the ordinary constructor's statements, with `mesh.coords` replaced by the adjoint
-    # constructor's coordinate parameter, must each unify (names of locals are pattern variables, bound consistently) with
-    # exactly one statement of the adjoint constructor; the returned FunctionSpace must then unify as well.
-    import copy
-    fmesh = f.params()[0]
-    cpar = a.params()[0]
+    f = ctx.need(f"{FS}:construct_function_space_from_parent_element")
+    aps, fps = a.params(), f.params()
+    extra = [p for p in aps if p not in fps]
+    if len(extra) != 1 or any(p not in aps for p in fps):
+        raise Incomplete(f"parameters of the adjoint constructor {aps} are not those of the ordinary constructor {fps} plus the coordinates")
+    cpar = extra[0]
+    C = ("sym", cpar)
+    types = {}
 
-    class _Sub(ast.NodeTransformer):
-        def visit_Attribute(self, n):
-            if n.attr == "coords" and isinstance(n.value, ast.Name) and n.value.id == fmesh:
-                return ast.Name(id=cpar, ctx=ast.Load())
-            return self.generic_visit(n)
+    def run_ctor(sc, argmap):
+        def run(J):
+            fn = J.module_value(sc.module, sc.name)
+            return J.call_closure(fn, [argmap(J, p_) for p_ in sc.params()], {}, force=True)
+        return S.paths(lambda plan: _interp(ctx, plan, types=types), run, limit=32)
 
-        def visit_Call(self, n):
-            n = self.generic_visit(n)
-            if isinstance(n.func, ast.Attribute) and isinstance(n.func.value, ast.Name) and n.func.value.id == "jax" and n.func.attr == "vmap":
-                n.func = ast.Name(id="vmap", ctx=ast.Load())
-            return n
-    u = Unifier(a, extra_locals=())
-    # the rebuilt mesh shadows the parameter `mesh`: it is a local of the adjoint constructor only after its rebuild statement
-    u.locals.discard(a.params()[2])
-    a_stmts = [st for st in a.node.body if not (isinstance(st, ast.Expr) and isinstance(st.value, ast.Constant))]
-    roles = ("shapes", "shapeGrads", "mode-table", "vols")
-    k = 0
-    for st_f in f.node.body:
-        if isinstance(st_f, ast.Expr) and isinstance(st_f.value, ast.Constant):
+    # pass 1: everything symbolic -- collects the literals the mode is compared with, and which attributes are read off which argument
+    modes_seen, mode_pars, reads = set(), set(), {}
+    for sc in (a, f):
+        for p in run_ctor(sc, lambda J, p_: J.sym(p_)):
+            for (key, d) in p.trace:
+                if key[0] == "eq":
+                    for x, y in ((key[1], key[2]), (key[2], key[1])):
+                        if x[0] == "c" and isinstance(x[1], str) and y[0] == "sym" and y[1] in sc.params():
+                            modes_seen.add(x[1])
+                            mode_pars.add(y[1])
+            if p.kind == "return":
+                _attr_reads(p.I.canon(p.value), reads)
+            for ev in p.I.events:
+                _attr_reads(ev.c, reads)
+    if len(mode_pars) != 1 or not modes_seen:
+        raise Incomplete(f"mode parameter / mode literals of the function-space constructors not found ({sorted(mode_pars)}, {sorted(modes_seen)})")
+    mpar = next(iter(mode_pars))
+    da, df = a.default_of(mpar), f.default_of(mpar)
+    ctx.decide(rule, (da is None and df is None) or (da is not None and df is not None and const_value(da) == const_value(df)), a, da, construct="default-mode",
+               detail=f"default {mpar} = {src(da)} in both constructors",
+               bad_detail=f"default {mpar} is {src(da)} in the adjoint constructor and {src(df)} in the ordinary one")
+    # record types of the arguments, by role: the unique namedtuple of the library that has all the fields read off the argument
+    I0 = _interp(ctx)
+    nts = _namedtuples_of_repo(ctx, I0)
+    for par, attrs in reads.items():
+        if par in fps and par != mpar:
+            cands = [nt for nt in nts if attrs <= set(nt.fields)]
+            if len(cands) == 1:
+                types[par] = (cands[0].name, cands[0].fields, len(cands[0].defaults))
+
+    mode0 = sorted(modes_seen)[0]
+    firstp = run_ctor(a, lambda J, p_: mode0 if p_ == mpar else J.sym(p_))
+    first = [p for p in firstp if p.kind == "return"]
+    if not first or not isinstance(first[0].value, S.Rec):
+        bad = any(p.kind == "crash" for p in firstp)
+        ctx.decide(rule, False if bad else None, a, None, construct="adjoint-constructor", detail=f"adjoint constructor does not evaluate to a record ({_why(firstp)})")
+        return
+    fsrec = first[0].value
+    I1 = first[0].I
+    # the mesh of a function space: the field in which the ordinary constructor stores one of its arguments unchanged, and that argument
+    ordp = [p for p in run_ctor(f, lambda J, p_: mode0 if p_ == mpar else J.sym(p_)) if p.kind == "return" and isinstance(p.value, S.Rec)]
+    if not ordp:
+        raise Incomplete("the ordinary constructor does not evaluate to a record")
+    stored = [(fld, ordp[0].I.canon(v)[1]) for fld, v in zip(ordp[0].value.fields, ordp[0].value.values)
+              if ordp[0].I.canon(v)[0] == "sym" and ordp[0].I.canon(v)[1] in fps and reads.get(ordp[0].I.canon(v)[1])]
+    stored = [(fld, q) for fld, q in stored if q in types] or stored
+    if len(stored) != 1 or stored[0][0] not in fsrec.fields:
+        raise Incomplete(f"cannot identify the mesh field of the function space (candidates {stored})")
+    mesh_field, mesh_par = stored[0]
+    mrec = fsrec.get(mesh_field)
+    if I1.typed(mrec) is not None:
+        mrec = I1.as_rec(mrec)
+    if not isinstance(mrec, S.Rec):
+        ctx.undecided(rule, a, None, construct="mesh-field:coords", detail=f"the mesh stored by the adjoint constructor is `{S.show(I1.canon(mrec))[:80]}`, not a record this rule can read")
+        return
+    nreq = len(mrec.fields) - mrec.ndefaults
+
+    def field_of(J, fld):
+        return J.canon(J.getattr(J.sym(mesh_par), fld))
+
+    def pp0(c):
+        t = S.show(c)
+        for par, (tn, flds, nd) in types.items():
+            t = re.sub(rf"\b{re.escape(par)}\[(\d+)\]", lambda m, flds=flds, par=par: f"{par}.{flds[int(m.group(1))]}" if int(m.group(1)) < len(flds) else m.group(0), t)
+        return t
+    coord_fields = [fld for fld, v in zip(mrec.fields, mrec.values) if I1.canon(v) == C]
+    for i, (fld, v) in enumerate(zip(mrec.fields, mrec.values)):
+        c = I1.canon(v)
+        if c == C:
+            ctx.decide(rule, fld == "coords", a, None, construct=f"mesh-field:{fld}", detail=f"{fld} = {S.show(c)}",
+                       bad_detail=f"rebuilt mesh field {fld} = {S.show(c)} (the perturbed coordinates belong in `coords`)")
+        elif c == field_of(I1, fld):
+            ctx.proved(rule, a, None, construct=f"mesh-field:{fld}", detail=f"{fld} = {mesh_par}.{fld}")
+        elif c == ("c", None) and i >= nreq:
+            note = f"construct_function_space_for_adjoint: optional mesh field `{fld}` is not copied to the rebuilt mesh (left at its default)"
+            if note not in ctx.notes:
+                ctx.notes.append(note)
+        else:
+            other = [g for g in mrec.fields if g != fld and c == field_of(I1, g)]
+            ctx.decide(rule, False if (other or _atomic(c)) else None, a, None, construct=f"mesh-field:{fld}",
+                       detail=f"rebuilt mesh field {fld} = {pp0(c)[:80]} (expected {mesh_par}.{fld})")
+    if "coords" in mrec.fields and not coord_fields:
+        ctx.refuted(rule, a, None, construct="mesh-field:coords", detail="the rebuilt mesh does not carry the perturbed coordinates")
+
+    def pp(c):
+        t = S.show(c)
+        for par, (tn, flds, nd) in types.items():
+            t = re.sub(rf"\b{re.escape(par)}\[(\d+)\]", lambda m, flds=flds, par=par: f"{par}.{flds[int(m.group(1))]}" if int(m.group(1)) < len(flds) else m.group(0), t)
+        return t
+
+    # pass 2: per mode literal, compare the two constructors field by field
+    def moved_mesh(J):
+        return S.Rec(mrec.tname, mrec.fields, [J.sym(cpar) if fld == "coords" else J.getattr(J.sym(mesh_par), fld) for fld in mrec.fields], mrec.ndefaults)
+
+    for mode in sorted(modes_seen):
+        pa = run_ctor(a, lambda J, p_: mode if p_ == mpar else J.sym(p_))
+        pf = run_ctor(f, lambda J, p_: mode if p_ == mpar else (moved_mesh(J) if p_ == mesh_par else J.sym(p_)))
+        if len(pa) != 1 or len(pf) != 1:
+            ctx.undecided(rule, a, None, construct=f"{mode}:paths", detail=f"{len(pa)} / {len(pf)} paths for a fixed mode (data-dependent branching)")
             continue
-        if isinstance(st_f, ast.Return):
-            tf = _Sub().visit(copy.deepcopy(st_f.value))
-            if isinstance(tf, ast.Call):
-                tf.func = ast.Attribute(value=ast.Name(id="FunctionSpace", ctx=ast.Load()), attr="FunctionSpace", ctx=ast.Load()) \
-                    if isinstance(tf.func, ast.Name) else tf.func
-            ra = a.returns()
-            ok = len(ra) == 1 and u.match(ra[0], tf)
-            ctx.decide(rule, ok, a, ra[0] if ra else None, construct="return-fields",
-                       detail="FunctionSpace(shapes, vols, shapeGrads, mesh, quadratureRule, isAxisymmetric) with the same wiring as the ordinary constructor",
-                       bad_detail=f"adjoint constructor returns `{src(ra[0]) if ra else '?'}`: the FunctionSpace fields are not filled like in the ordinary constructor `{src(st_f.value)}`")
+        qa, qf = pa[0], pf[0]
+        if qa.kind == "error" or qf.kind == "error":
+            ctx.undecided(rule, a, None, construct=f"{mode}:interpretation", detail=f"constructor cannot be interpreted: {qa.info or qf.info}")
             continue
-        tf = _Sub().visit(copy.deepcopy(st_f))
-        hits = [st_a for st_a in a_stmts if Unifier.match(_clone(u), st_a, tf)]
-        role = roles[k] if k < len(roles) else f"stmt{k}"
-        k += 1
-        if len(hits) == 1:
-            u.match(hits[0], tf)
-        ctx.decide(rule, len(hits) == 1, a, hits[0] if hits else None, construct=f"stmt:{role}",
-                   detail="identical to the ordinary constructor modulo mesh.coords -> coords and names of locals",
-                   bad_detail=f"no statement of the adjoint constructor agrees with the ordinary constructor's `{src(st_f)[:140]}` (modulo mesh.coords -> {cpar} and "
-                              f"names of locals): the rebuilt function space differs from one built on the moved mesh")
-    # rebuilt mesh carries the perturbed coordinates and every other field of the input mesh
-    for st in walk_local(a.node):
-        if isinstance(st, ast.Assign) and isinstance(st.value, ast.Call) and dotted(st.value.func) and dotted(st.value.func).endswith("Mesh"):
-            for k in st.value.keywords:
-                if k.arg == "coords":
-                    ok = isinstance(k.value, ast.Name) and k.value.id == a.params()[0]
-                else:
-                    ok = src(k.value) == f"mesh.{k.arg}"
-                ctx.decide(rule, ok, a, k.value, construct=f"mesh-field:{k.arg}", detail=f"{k.arg} = {src(k.value)}",
-                           bad_detail=f"rebuilt mesh field {k.arg} = {src(k.value)}")
+        if qa.kind != "return" or qf.kind != "return":
+            same = (qa.kind != "return") == (qf.kind != "return")
+            ctx.decide(rule, same, a, None, construct=f"{mode}:accepted", detail="both constructors reject this mode",
+                       bad_detail=f"mode '{mode}': adjoint constructor {qa.kind}s ({qa.info}), ordinary constructor {qf.kind}s ({qf.info})")
+            continue
+        va, vf = qa.value, qf.value
+        if not (isinstance(va, S.Rec) and isinstance(vf, S.Rec) and va.fields == vf.fields and va.tname == vf.tname):
+            ctx.refuted(rule, a, None, construct=f"{mode}:record", detail=f"adjoint constructor returns {S.show(qa.I.canon(va))[:80]}, ordinary constructor {S.show(qf.I.canon(vf))[:80]}")
+            continue
+        for fld, xa, xf in zip(va.fields, va.values, vf.values):
+            ca, cf = qa.I.canon(xa), qf.I.canon(xf)
+            if fld == mesh_field and qa.I.typed(xa) is not None:
+                xa = qa.I.as_rec(xa)
+            if fld == mesh_field and isinstance(xa, S.Rec) and isinstance(xf, S.Rec) and xa.fields == xf.fields:
+                # optional fields left at their default are recorded above as a note
+                diff = [g for k, (g, y1, y2) in enumerate(zip(xa.fields, xa.values, xf.values))
+                        if qa.I.canon(y1) != qf.I.canon(y2) and not (qa.I.canon(y1) == ("c", None) and k >= nreq)]
+                ok, bad = not diff, f"a mesh whose fields {diff} differ from the moved mesh"
+            else:
+                ok, what = _differs(ca, cf)
+                swapped = [g for g, y in zip(vf.fields, vf.values) if g != fld and qf.I.canon(y) == ca]
+                if ok is not True and swapped:
+                    ok, what = False, f"it is the value of the field `{swapped[0]}`"
+                bad = f"not the ordinary constructor's value: {what} (adjoint: `{pp(ca)[:140]}`; ordinary constructor on the moved mesh: `{pp(cf)[:140]}`)"
+            ctx.decide(rule, ok, a, None, construct=f"{mode}:field:{fld}",
+                       detail=f"mode '{mode}': {fld} equals the ordinary constructor's value on the moved mesh",
+                       bad_detail=f"mode '{mode}': FunctionSpace.{fld} of the adjoint constructor is {bad}: the rebuilt function space differs from one built on the moved mesh")
 
 
 # ------------------------------------------------------------------ selftest variants
+
+def _multi(*edits):
+    def f(src):
+        for e in edits:
+            src = e(src)
+            if src is None:
+                return None
+        return src
+    return f
+
+
+def _replace_func(func, newtext):
+    """edit: replace a whole top-level function (decorators included) by new source text"""
+    def f(src):
+        try:
+            tree = ast.parse(src)
+        except SyntaxError:
+            return None
+        for st in tree.body:
+            if isinstance(st, ast.FunctionDef) and st.name == func:
+                lines = src.split("\n")
+                start = (st.decorator_list[0].lineno if st.decorator_list else st.lineno) - 1
+                return "\n".join(lines[:start]) + "\n" + newtext + "\n" + "\n".join(lines[st.end_lineno:])
+        return None
+    return f
+
 
 def variants(repo):
     from optilint.selftest import Variant, sub, sub_in_func, alpha_rename, reformat
@@ -672,7 +1647,7 @@ def variants(repo):
     MIp = "optimism/inverse/MechanicsInverse.py"
     A = "optimism/inverse/AdjointFunctionSpace.py"
     E = "optimism/EquationSolver.py"
-    return [
+    return _refactoring_variants(Variant, sub, sub_in_func, N, O, MIp, A, E) + [
         Variant("extra solver parameter (arity drift)", E,
                 sub("def solve_trust_region_minimization(x, r, hess_vec_func, precond, trSize, settings):",
                     "def solve_trust_region_minimization(x, r, hess_vec_func, precond, mult_by_approx_hessian, trSize, settings):"),
@@ -724,4 +1699,186 @@ def variants(repo):
         Variant("reformat Objective", O, reformat(), None),
         Variant("reformat MechanicsInverse", MIp, reformat(), None),
         Variant("alpha-rename nonlinear_solve_with_state_b", N, alpha_rename("nonlinear_solve_with_state_b"), None),
+    ]
+
+
+def _refactoring_variants(Variant, sub, sub_in_func, N, O, MIp, A, E):
+    """Behaviour-preserving refactorings of the anchor functions (must stay silent) and subtle breaking edits, some of them applied to
+    refactored code (must be reported): the rules decide values, so neither kind may depend on how the code is spelled."""
+    D2, D3, D4, D5 = "D2/T5-custom-vjp-contract", "D3/T5-parameter-slots", "D4/T7-adjoint-sign", "D5/T6-adjoint-function-space"
+    bwd_loop = '''
+def nonlinear_solve_with_state_b(objective, solverSettings, saved, ct):
+    sol, params = saved
+    objective.p = params
+    zero = np.zeros_like(sol)
+    lam = EquationSolver.solve_trust_region_minimization(zero, ct, lambda w: objective.hessian_vec(sol, w),
+                                                         objective.apply_precond, np.inf, solverSettings)[0]
+    sens = [None]*6
+    for k in (0, 1, 2, 4):
+        if params[k] is not None:
+            sens[k] = getattr(objective, f"vec_jacobian_p{k}")(sol, lam)[0]
+    return zero, Objective.Params(*sens)
+'''
+    helper = '''
+def _adjoint(objective, settings, point, v):
+    def H(w):
+        return objective.hessian_vec(point, w)
+    out = EquationSolver.solve_trust_region_minimization(np.zeros_like(point), v, H, objective.apply_precond, RADIUS, settings)
+    return out[0]
+### new version'''
+    use_helper = sub_in_func("nonlinear_solve_b", """    hess_vec_func = lambda w: mechanicalEnergy.hessian_vec(Uu, w)
+    
+    results = EquationSolver.solve_trust_region_minimization(0.0*Uu,
+                                                             v,
+                                                             hess_vec_func,
+                                                             mechanicalEnergy.apply_precond,
+                                                             np.inf,
+                                                             settings)
+    
+    lam = results[0]
+""", "    lam = _adjoint(mechanicalEnergy, settings, Uu, v)\n")
+    factory = sub("""        self.vec_jac_xp0 = jit(lambda x, p, vx:
+                               vjp(lambda q0: self.grad_x(x, param_index_update(p,0,q0)), p[0])[1](vx))
+        
+        self.vec_jac_xp1 = jit(lambda x, p, vx:
+                               vjp(lambda q1: self.grad_x(x, param_index_update(p,1,q1)), p[1])[1](vx))
+        
+        self.vec_jac_xp2 = jit(lambda x, p, vx:
+                               vjp(lambda q2: self.grad_x(x, param_index_update(p,2,q2)), p[2])[1](vx))
+
+        self.vec_jac_xp4 = jit(lambda x, p, vx:
+                               vjp(lambda q4: self.grad_x(x, param_index_update(p,4,q4)), p[4])[1](vx))
+""", """        def make_vec_jac(slot):
+            def vec_jac(x, p, vx):
+                def residual_of_slot(q):
+                    return self.grad_x(x, PARAMS_WITH_SLOT)
+                _, pullback = vjp(residual_of_slot, p[slot])
+                return pullback(vx)
+            return jit(vec_jac)
+        self.vec_jac = {slot: make_vec_jac(slot) for slot in (0, 1, 2, 4)}
+""")
+    use_factory = [sub(f"return self.vec_jac_xp{k}(x, self.p, vp)", f"return self.vec_jac[{k}](x, self.p, vp)") for k in (0, 1, 2, 4)]
+    afs = '''
+def construct_function_space_for_adjoint(coords, shapeOnRef, mesh, quadratureRule, mode2D='cartesian'):
+    table = {'cartesian': (compute_element_volumes, False), 'axisymmetric': (VOLS_AXI, True)}
+    el_vols, isAxisymmetric = table[mode2D]
+    conns = mesh.conns
+    parent = mesh.parentElement
+    shapes = vmap(lambda elConns, elShape: elShape, (0, None))(conns, shapeOnRef.values)
+    map_grads = vmap(map_element_shape_grads, in_axes=(None, 0, None, None))
+    shapeGrads = map_grads(coords, conns, parent, shapeOnRef.gradients)
+    vols = vmap(el_vols, (None, 0, None, 0, None))(coords, conns, parent, shapes, quadratureRule.wgauss)
+    moved = mesh._replace(coords=coords)
+    return FunctionSpace.FunctionSpace(shapes=shapes, vols=vols, shapeGrads=shapeGrads, mesh=moved, quadratureRule=quadratureRule,
+                                       isAxisymmetric=isAxisymmetric)
+'''
+    wrapper_def = """    def compute_partial_ivs_update_partial_disp(x, ivs, av, dt=0.0):
+        f = partial(compute_ivs_update, stateVariables=ivs, DT)
+        _, pullback = vjp(f, x)
+        out, = pullback(av)
+        return out
+    compute_partial_ivs_update_partial_disp = jit(compute_partial_ivs_update_partial_disp)
+"""
+    wrapper_old = """    compute_partial_ivs_update_partial_disp = jit(lambda x, ivs, av, dt=0.0: 
+                                                  vjp(lambda z: compute_ivs_update(z, ivs, dt), x)[1](av)[0])
+"""
+    es_solve = '''
+def _set_parameters_with_warm_start(objective, xBar0, p, updatePrecond):
+    if updatePrecond:
+        objective.update_precond(xBar0)
+    dxBar = WarmStart.warm_start_increment(objective, xBar0, p)
+    objective.p = p
+    return xBar0 + dxBar
+
+
+def nonlinear_equation_solve(objective, x0, p, settings,
+                             solver_algorithm=trust_region_minimize,
+                             callback=None,
+                             useWarmStart=True,
+                             updatePrecond=True):
+    xBar0 = objective.scaling * x0
+    if not useWarmStart:
+        SET_PARAMETERS
+    else:
+        xBar0 = _set_parameters_with_warm_start(objective, xBar0, p, updatePrecond)
+    if updatePrecond:
+        objective.update_precond(xBar0)
+    result = solver_algorithm(objective, xBar0, settings, callback=callback)
+    xBar, solverSuccess = result
+    return objective.invScaling * xBar, solverSuccess
+'''
+    cg_temps = lambda sign: _multi(
+        sub_in_func("solve_trust_region_minimization", """        curvature = d@( hess_vec_func(d) )
+        alpha = rPr / curvature
+           
+        zNp1 = z + alpha*d""", """        Hd = hess_vec_func(d)
+        curvature = np.dot(Hd, d)
+        alpha = rPr / curvature
+        zNp1 = alpha*d + z"""),
+        sub_in_func("solve_trust_region_minimization", "        r += alpha * hess_vec_func(d)\n", f"        r = r {sign} Hd * alpha\n"))
+    R = lambda edit, old, new: (lambda src: (lambda t: None if t is None else t.replace(old, new))(edit(src)))
+    return [
+        # ---- preserving
+        Variant("refactor: residuals as dict, read by key", N, _multi(
+            sub_in_func("nonlinear_solve_with_state_f", "return Uu, (Uu, p)", "return Uu, {'solution': Uu, 'params': p}"),
+            sub_in_func("nonlinear_solve_with_state_b", "    Uu, p = rdata\n", "    Uu = rdata['solution']\n    p = rdata['params']\n")), None),
+        Variant("refactor: slots in a loop with getattr, renamed parameters", N, _replace_func("nonlinear_solve_with_state_b", bwd_loop), None),
+        Variant("refactor: adjoint solve in a helper with nested def", N,
+                _multi(sub("### new version", helper.replace("RADIUS", "float('inf')")), use_helper), None),
+        Variant("refactor: double negation of the adjoint vector", N, _multi(
+            sub_in_func("nonlinear_solve_b", "lam = results[0]", "lam = -results[0]"),
+            sub_in_func("nonlinear_solve_b", "mechanicalEnergy.vec_jacobian_p2(Uu, lam)[0])", "-mechanicalEnergy.vec_jacobian_p2(Uu, lam)[0])")), None),
+        Variant("refactor: _replace instead of param_index_update in primal and bwd", N, _multi(
+            sub_in_func("nonlinear_solve", "p = Objective.param_index_update(mechanicalEnergy.p, 2, designParams)", "p = mechanicalEnergy.p._replace(design_data=designParams)"),
+            sub_in_func("nonlinear_solve_b", "mechanicalEnergy.p = Objective.param_index_update(mechanicalEnergy.p, 2, designParams)",
+                        "mechanicalEnergy.p = mechanicalEnergy.p._replace(design_data=designParams)")), None),
+        Variant("refactor: Objective vjp closures from a factory, kept in a dict", O,
+                _multi(R(factory, "PARAMS_WITH_SLOT", "param_index_update(p, slot, q)"), *use_factory), None),
+        Variant("refactor: param_index_update through a list", O, _replace_func("param_index_update", '''
+def param_index_update(p, index, newParam):
+    if index not in range(6):
+        print('invalid index passed to param_index_update = ', index)
+        return None
+    slots = list(p)
+    slots[index] = newParam
+    return Params(*slots)
+'''), None),
+        Variant("refactor: inverse wrapper as def with partial and unpacked pullback", MIp, sub(wrapper_old, wrapper_def.replace("DT", "dt=dt")), None),
+        Variant("refactor: adjoint constructor with dispatch table, _replace, keywords", A,
+                _replace_func("construct_function_space_for_adjoint", afs.replace("VOLS_AXI", "compute_element_volumes_axisymmetric")), None),
+        Variant("refactor: nonlinear_equation_solve with extracted helper and guard clause", E,
+                _replace_func("nonlinear_equation_solve", es_solve.replace("SET_PARAMETERS", "objective.p = p")), None),
+        Variant("refactor: CG with temporaries, np.dot and commuted products", E, cg_temps("+"), None),
+        # ---- breaking
+        Variant("refactored helper solves inside the trust region", N,
+                _multi(sub("### new version", helper.replace("RADIUS", "settings.tr_size")), use_helper), D4),
+        Variant("factory closures read self.p", O,
+                _multi(R(factory, "PARAMS_WITH_SLOT", "param_index_update(self.p, slot, q)"), *use_factory), D3),
+        Variant("refactored wrapper drops dt", MIp, sub(wrapper_old, wrapper_def.replace(", DT", "")), D3),
+        Variant("refactored adjoint constructor: axisymmetric entry of the table", A,
+                _replace_func("construct_function_space_for_adjoint", afs.replace("VOLS_AXI", "compute_element_volumes")), D5),
+        Variant("refactored nonlinear_equation_solve forgets the parameters", E,
+                _replace_func("nonlinear_equation_solve", es_solve.replace("SET_PARAMETERS", "pass")), D2),
+        Variant("refactored CG: residual recurrence sign", E, cg_temps("-"), D4),
+        Variant("forward rule saves the guess instead of the solution", N,
+                sub_in_func("nonlinear_solve_with_state_f", "return Uu, (Uu, p)", "return Uu, (UuGuess, p)"), D2),
+        Variant("cotangent slots 1 and 2 exchanged", N,
+                sub_in_func("nonlinear_solve_with_state_b", "Objective.Params(dp0, dp1, dp2, None, dp4)", "Objective.Params(dp0, dp2, dp1, None, dp4)"), D3),
+        Variant("slot 1 guarded by slot 0", N, sub_in_func("nonlinear_solve_with_state_b", "    if p[1] != None:", "    if p[0] != None:"), D3),
+        Variant("parameters restored after the adjoint solve", N, _multi(
+            sub_in_func("nonlinear_solve_with_state_b", "    mechanicalEnergy.p = p\n", ""),
+            sub_in_func("nonlinear_solve_with_state_b", "    lam = results[0]\n", "    lam = results[0]\n    mechanicalEnergy.p = p\n")), D2),
+        Variant("adjoint vector negated once", N, sub_in_func("nonlinear_solve_with_state_b", "lam = results[0]", "lam = -results[0]"), D4),
+        Variant("cotangent of the guess is the incoming cotangent", N, sub_in_func("nonlinear_solve_with_state_b", "    return (UuZeros,", "    return (v,"), D4),
+        Variant("public method delegates to the closure of another slot", O,
+                sub("return self.vec_jac_xp1(x, self.p, vp)", "return self.vec_jac_xp2(x, self.p, vp)"), D3),
+        Variant("hessian closure reads self.p", O,
+                sub("jvp(lambda z: self.grad_x(z,p), (x,), (vx,))[1])", "jvp(lambda z: self.grad_x(z,self.p), (x,), (vx,))[1])"), D3),
+        Variant("wrapper contracts with its primal", MIp,
+                sub("vjp(lambda z: grad(energyFunction, 0)(u, q, z), x)[1](vx)[0])", "vjp(lambda z: grad(energyFunction, 0)(u, q, z), x)[1](x)[0])"), D3),
+        Variant("adjoint shape gradients on the old coordinates", A,
+                sub("(None, 0, None, None))(coords, mesh.conns", "(None, 0, None, None))(mesh.coords, mesh.conns"), D5),
+        Variant("rebuilt mesh takes conns from another field", A,
+                sub("conns=mesh.conns, simplexNodesOrdinals", "conns=mesh.simplexNodesOrdinals, simplexNodesOrdinals"), D5),
+        Variant("CG ascent direction", E, sub_in_func("solve_trust_region_minimization", "    d = -Pr\n    cauchyP", "    d = Pr\n    cauchyP"), D4),
     ]
